@@ -1089,4 +1089,1671 @@ theorem filter_range_getD {α β} (p : β → Bool) (d' : β) (d : α) : ∀ (ys
       rw [← ih]
       congr 1
 
+/-! ### positions of the asset grid that belong to the step list, blocks of mapping rows -/
+
+/-- positions of an asset grid (step indices `idx`) whose step is in `I` -/
+def pos (idx I : List Nat) : List Nat := (List.range idx.length).filter fun i => I.contains (idx.getD i 0)
+
+theorem pos_map_getD {α} (idx I : List Nat) (xs : List α) (d : α) (h : xs.length = idx.length) :
+    (pos idx I).map (fun i => xs.getD i d) = sel (idx.map fun t => I.contains t) xs :=
+  filter_range_getD (fun t => I.contains t) 0 d idx xs h
+
+theorem mem_pos (idx I : List Nat) (i : Nat) : i ∈ pos idx I ↔ i < idx.length ∧ idx.getD i 0 ∈ I := by
+  simp [pos, List.mem_filter]
+
+theorem pos_nodup (idx I : List Nat) : (pos idx I).Nodup :=
+  List.Nodup.sublist List.filter_sublist List.nodup_range
+
+theorem pos_length (idx I : List Nat) : (pos idx I).length = (sel (idx.map fun t => I.contains t) idx).length := by
+  rw [← pos_map_getD idx I idx 0 rfl, List.length_map]
+
+theorem zipIdx_filter_fst {α} (p : α → Bool) : ∀ (xs : List α) (k : Nat),
+    ((xs.zipIdx k).filter fun ti => p ti.1).map (·.1) = xs.filter p
+  | [], _ => rfl
+  | x :: xs, k => by
+    rw [List.zipIdx_cons, List.filter_cons, List.filter_cons]
+    cases h : p x <;> simp [zipIdx_filter_fst p xs (k + 1)]
+
+theorem zipIdx_filter_snd {α} (p : α → Bool) (d : α) : ∀ (xs : List α) (k : Nat),
+    ((xs.zipIdx k).filter fun ti => p ti.1).map (·.2) =
+      ((List.range xs.length).filter fun i => p (xs.getD i d)).map (k + ·)
+  | [], _ => rfl
+  | x :: xs, k => by
+    have ih := zipIdx_filter_snd p d xs (k + 1)
+    rw [List.zipIdx_cons, List.filter_cons, List.length_cons, List.range_succ_eq_map, List.filter_cons,
+      List.filter_map]
+    have e1 : ((fun i => p ((x :: xs).getD i d)) ∘ Nat.succ) = fun i => p (xs.getD i d) := by
+      funext i; simp
+    rw [e1]
+    cases h : p x
+    · simp only [h, Bool.false_eq_true, if_false, List.getD_cons_zero, List.map_map]
+      rw [ih]
+      apply List.map_congr_left
+      intro i _
+      simp; omega
+    · simp only [h, if_true, List.getD_cons_zero, List.map_cons, List.map_map, Nat.add_zero]
+      rw [ih]
+      congr 1
+      apply List.map_congr_left
+      intro i _
+      simp; omega
+
+/-- a block of mapping rows: one row per step of the asset grid, built from position and step -/
+def genBlock (R : Nat → Nat → MapRow) (idx : List Nat) : List MapRow := idx.zipIdx.map fun ti => R ti.2 ti.1
+
+theorem mem_genBlock (R : Nat → Nat → MapRow) (idx : List Nat) (m : MapRow) :
+    m ∈ genBlock R idx ↔ ∃ i, ∃ h : i < idx.length, m = R i (idx[i]) := by
+  unfold genBlock
+  rw [List.mem_map]
+  constructor
+  · rintro ⟨⟨t, i⟩, hti, rfl⟩
+    obtain ⟨hi, ht⟩ := List.mem_zipIdx' hti
+    exact ⟨i, hi, by simp [ht]⟩
+  · rintro ⟨i, hi, rfl⟩
+    refine ⟨(idx[i], i), ?_, rfl⟩
+    have h2 : i < (idx.zipIdx).length := by simpa using hi
+    have := List.getElem_mem h2
+    rw [List.getElem_zipIdx] at this
+    simpa using this
+
+/-- the rows of a block at the steps of `I`, renamed, are the block of the restricted grid -/
+theorem block_restrict (R R' : Nat → Nat → MapRow) (idx I : List Nat) (ren : MapRow → MapRow)
+    (hstep : ∀ i t, (R i t).step = t)
+    (hren : ∀ i, i ∈ pos idx I → ∀ t, t ∈ I → ren (R i t) = R' ((pos idx I).idxOf i) (I.idxOf t)) :
+    ((genBlock R idx).filter fun m => I.contains m.step).map ren =
+      genBlock R' ((sel (idx.map fun t => I.contains t) idx).map fun t => I.idxOf t) := by
+  unfold genBlock
+  rw [List.filter_map, List.map_map, List.zipIdx_map, List.map_map]
+  have e1 : ((fun m : MapRow => I.contains m.step) ∘ fun ti : Nat × Nat => R ti.2 ti.1) = fun ti => I.contains ti.1 := by
+    funext ti; simp [hstep]
+  rw [e1]
+  have hfst := zipIdx_filter_fst (fun t => I.contains t) idx 0
+  have hsnd := zipIdx_filter_snd (fun t => I.contains t) 0 idx 0
+  rw [sel_map_self', ← hfst]
+  have hsnd' : ((idx.zipIdx 0).filter fun ti => I.contains ti.1).map (·.2) = pos idx I := by
+    rw [hsnd]; unfold pos; simp
+  generalize hL : (idx.zipIdx 0).filter (fun ti => I.contains ti.1) = L at hsnd' hfst
+  have hLmem : ∀ ti ∈ L, ti.1 ∈ I := by
+    intro ti hti
+    rw [← hL] at hti
+    exact List.contains_iff_mem.mp (List.mem_filter.mp hti).2
+  apply List.ext_getElem
+  · simp
+  · intro j h1 h2
+    have hj : j < L.length := by simpa using h1
+    simp only [List.getElem_map, List.getElem_zipIdx, Function.comp, Prod.map, id, Nat.zero_add]
+    have hp : (pos idx I)[j]'(by rw [← hsnd']; simpa using hj) = (L[j]).2 := by
+      simp [← hsnd']
+    have hmem : (L[j]).2 ∈ pos idx I := by
+      rw [← hsnd']; exact List.mem_map_of_mem (List.getElem_mem hj)
+    rw [hren _ hmem _ (hLmem _ (List.getElem_mem hj))]
+    congr 1
+    rw [← hp]
+    exact (pos_nodup idx I).idxOf_getElem j _
+
+/-! ### kept variables and restricted vectors of one-block and two-block problems -/
+
+theorem varAtSteps_append (M1 M2 : List MapRow) (I : List Nat) (v : Nat) :
+    varAtSteps (M1 ++ M2) I v = (varAtSteps M1 I v || varAtSteps M2 I v) := by
+  simp [varAtSteps, List.any_append]
+
+theorem varAtSteps_genBlock (R : Nat → Nat → MapRow) (idx I : List Nat) (off : Nat)
+    (hvar : ∀ i t, (R i t).var = off + i) (hstep : ∀ i t, (R i t).step = t) (w : Nat) :
+    varAtSteps (genBlock R idx) I w = true ↔ ∃ i, i < idx.length ∧ off + i = w ∧ idx.getD i 0 ∈ I := by
+  rw [varAtSteps_iff]
+  constructor
+  · rintro ⟨m, hm, hv, hs⟩
+    obtain ⟨i, hi, rfl⟩ := (mem_genBlock R idx m).mp hm
+    rw [hvar] at hv
+    rw [hstep] at hs
+    exact ⟨i, hi, hv, by simpa [List.getD_eq_getElem?_getD, hi] using hs⟩
+  · rintro ⟨i, hi, hv, hs⟩
+    refine ⟨R i idx[i], (mem_genBlock R idx _).mpr ⟨i, hi, rfl⟩, by rw [hvar]; exact hv, ?_⟩
+    rw [hstep]
+    simpa [List.getD_eq_getElem?_getD, hi] using hs
+
+theorem keep_one_block (a : AssetProblem) (idx I : List Nat) (hn : a.n = idx.length)
+    (h : ∀ v, v < idx.length → (varAtSteps a.mapping I v = true ↔ idx.getD v 0 ∈ I)) :
+    a.keep I = pos idx I := by
+  unfold AssetProblem.keep pos
+  rw [hn]
+  apply List.filter_congr
+  intro v hv
+  rw [Bool.eq_iff_iff, h v (List.mem_range.mp hv), List.contains_iff_mem]
+
+theorem keep_two_block (a : AssetProblem) (idx I : List Nat) (hn : a.n = idx.length + idx.length)
+    (h1 : ∀ v, v < idx.length → (varAtSteps a.mapping I v = true ↔ idx.getD v 0 ∈ I))
+    (h2 : ∀ v, v < idx.length → (varAtSteps a.mapping I (idx.length + v) = true ↔ idx.getD v 0 ∈ I)) :
+    a.keep I = pos idx I ++ (pos idx I).map (idx.length + ·) := by
+  unfold AssetProblem.keep pos
+  rw [hn, List.range_add, List.filter_append, List.filter_map]
+  congr 1
+  · apply List.filter_congr
+    intro v hv
+    rw [Bool.eq_iff_iff, h1 v (List.mem_range.mp hv), List.contains_iff_mem]
+  · congr 1
+    apply List.filter_congr
+    intro v hv
+    simp only [Function.comp]
+    rw [Bool.eq_iff_iff, h2 v (List.mem_range.mp hv), List.contains_iff_mem]
+
+theorem two_block_vec (idx I : List Nat) (xs ys : List Rat) (hx : xs.length = idx.length) (hy : ys.length = idx.length) :
+    (pos idx I ++ (pos idx I).map (idx.length + ·)).map (fun v => (xs ++ ys).getD v 0) =
+      sel (idx.map fun t => I.contains t) xs ++ sel (idx.map fun t => I.contains t) ys := by
+  rw [List.map_append, List.map_map, ← pos_map_getD idx I xs 0 hx, ← pos_map_getD idx I ys 0 hy]
+  congr 1
+  · apply List.map_congr_left
+    intro i hi
+    have : i < xs.length := by rw [hx]; exact ((mem_pos idx I i).mp hi).1
+    simp [List.getD_eq_getElem?_getD, List.getElem?_append_left this]
+  · apply List.map_congr_left
+    intro i _
+    simp only [Function.comp]
+    rw [← hx]
+    exact getD_append_right' xs ys i
+
+theorem idxOf_two_block_right (idx I : List Nat) (i : Nat) :
+    (pos idx I ++ (pos idx I).map (idx.length + ·)).idxOf (idx.length + i) = (pos idx I).length + (pos idx I).idxOf i := by
+  rw [idxOf_append_right]
+  · rw [idxOf_map_inj (idx.length + ·) (fun a b h => by omega)]
+  · intro h
+    have := ((mem_pos idx I _).mp h).1
+    omega
+
+/-- how to show what a restricted problem is -/
+theorem restrictTo_eq (a b : AssetProblem) (I : List Nat) (hname : a.name = b.name) (hnodes : a.nodes = b.nodes)
+    (hc : (a.keep I).map (fun v => a.c.getD v 0) = b.c) (hl : (a.keep I).map (fun v => a.l.getD v 0) = b.l)
+    (hu : (a.keep I).map (fun v => a.u.getD v 0) = b.u)
+    (hrows : (a.rows.filter fun r => r.coeffs.all fun q => (a.keep I).contains q.1).map
+        (Row.rename fun v => (a.keep I).idxOf v) = b.rows)
+    (hmap : (a.mapping.filter fun m => I.contains m.step).map
+        (fun m => { m with var := (a.keep I).idxOf m.var, step := I.idxOf m.step }) = b.mapping) :
+    a.restrictTo I = b := by
+  cases b
+  simp only at hname hnodes hc hl hu hrows hmap
+  subst hname hnodes hc hl hu hrows hmap
+  rfl
+
+/-! ### the data pipeline of the builders on the restricted grid -/
+
+theorem pickMask_eq (g : Grid) (I : List Nat) : g.pickMask I = g.idx.map fun t => I.contains t := rfl
+
+theorem mem_sel_idx (g : Grid) (I : List Nat) (t : Nat) (h : t ∈ sel (g.pickMask I) g.idx) : t ∈ I := by
+  rw [pickMask_eq, sel_map_self'] at h
+  exact List.contains_iff_mem.mp (List.mem_filter.mp h).2
+
+theorem pick_T (g : Grid) (I : List Nat) (hg : g.Ok) : (g.pick I).T = (pos g.idx I).length := by
+  rw [pos_length]
+  exact sel_length_eq _ _ _ (by rw [hg.1]; rfl)
+
+theorem pick_ok (g : Grid) (I : List Nat) (hg : g.Ok) : (g.pick I).Ok := by
+  have h1 : g.pts.length = g.idx.length := hg.1.symm
+  refine ⟨?_, ?_, ?_⟩
+  · show ((sel _ g.idx).map _).length = (sel _ g.pts).length
+    rw [List.length_map]; exact sel_length_eq _ _ _ h1.symm
+  · exact sel_length_eq _ _ _ (by rw [hg.2.1]; rfl)
+  · exact sel_length_eq _ _ _ (by rw [hg.2.2]; rfl)
+
+theorem lookup_pickPrices (I : List Nat) (prices : Prices) (k : String) :
+    (pickPrices I prices).lookup k = (prices.lookup k).map fun arr => I.map fun t => arr.getD t 0 := by
+  unfold Prices.lookup pickPrices
+  rw [List.find?_map]
+  have e : ((fun e : String × List Rat => e.1 == k) ∘ fun kv : String × List Rat => (kv.1, I.map fun t => kv.2.getD t 0))
+      = fun e => e.1 == k := rfl
+  rw [e]
+  cases List.find? (fun e : String × List Rat => e.1 == k) prices <;> rfl
+
+theorem getD_map_idxOf (I : List Nat) (f : Nat → Rat) (t : Nat) (ht : t ∈ I) :
+    (I.map f).getD (I.idxOf t) 0 = f t := by
+  have h1 := List.idxOf_lt_length_of_mem ht
+  rw [List.getD_eq_getElem?_getD, List.getElem?_eq_getElem (by simpa using h1)]
+  simp [List.getElem_idxOf h1]
+
+/-- sampling the picked array at the re-based steps = the picked sample -/
+theorem sample_pick (arr : List Rat) (g : Grid) (I : List Nat) (ys : List Rat) (h : sample arr g.idx = .ok ys) :
+    sample (I.map fun t => arr.getD t 0) (g.pick I).idx = .ok (sel (g.pickMask I) ys) := by
+  rw [sample_ok h]
+  unfold sample
+  have hall : ((g.pick I).idx.all fun i => decide (i < (I.map fun t => arr.getD t 0).length)) = true := by
+    rw [List.all_eq_true]
+    intro i hi
+    obtain ⟨t, ht, rfl⟩ := List.mem_map.mp hi
+    simpa using List.idxOf_lt_length_of_mem (mem_sel_idx g I t ht)
+  rw [if_pos hall]
+  show Except.ok _ = _
+  congr 1
+  show ((sel (g.pickMask I) g.idx).map _).map _ = _
+  rw [List.map_map, sel_map]
+  apply List.map_congr_left
+  intro t ht
+  exact getD_map_idxOf I (fun t => arr.getD t 0) t (mem_sel_idx g I t ht)
+
+theorem sample_zero_pick (n n' : Nat) (g : Grid) (I : List Nat) (ys : List Rat)
+    (h : sample (List.replicate n 0) g.idx = .ok ys) (hn' : n' = I.length) :
+    sample (List.replicate n' 0) (g.pick I).idx = .ok (sel (g.pickMask I) ys) := by
+  rw [sample_ok h]
+  unfold sample
+  have hall : ((g.pick I).idx.all fun i => decide (i < (List.replicate n' (0 : Rat)).length)) = true := by
+    rw [List.all_eq_true]
+    intro i hi
+    obtain ⟨t, ht, rfl⟩ := List.mem_map.mp hi
+    simpa [hn'] using List.idxOf_lt_length_of_mem (mem_sel_idx g I t ht)
+  rw [if_pos hall]
+  show Except.ok _ = _
+  congr 1
+  have hz : ∀ (k i : Nat), (List.replicate k (0 : Rat)).getD i 0 = 0 := by
+    intro k i
+    rw [List.getD_eq_getElem?_getD]
+    by_cases hi : i < k
+    · simp [hi]
+    · have : (List.replicate k (0 : Rat))[i]? = none := by
+        apply List.getElem?_eq_none; simp; omega
+      rw [this]; rfl
+  show ((sel (g.pickMask I) g.idx).map _).map _ = _
+  rw [List.map_map, sel_map]
+  apply List.map_congr_left
+  intro t _
+  show (List.replicate n' (0 : Rat)).getD _ 0 = (List.replicate n (0 : Rat)).getD _ 0
+  rw [hz, hz]
+
+theorem priceVector_pick (key : Option String) (g : Grid) (I : List Nat) (prices : Prices) (fullT : Nat)
+    (ys : List Rat) (h : priceVector key g prices fullT = .ok ys) :
+    priceVector key (g.pick I) (pickPrices I prices) I.length = .ok (sel (g.pickMask I) ys) := by
+  unfold priceVector at h ⊢
+  cases key with
+  | none => exact sample_zero_pick fullT I.length g I ys h rfl
+  | some k =>
+    simp only at h ⊢
+    rw [lookup_pickPrices]
+    cases hl : prices.lookup k with
+    | none => simp [hl, throw, throwThe, MonadExceptOf.throw] at h
+    | some arr =>
+      simp only [hl, Option.map_some] at h ⊢
+      split at h
+      · rw [if_pos (by simp)]
+        exact sample_pick arr g I ys h
+      · simp [throw, throwThe, MonadExceptOf.throw] at h
+
+theorem transportCosts_pick (key : Option String) (g : Grid) (I : List Nat) (prices : Prices) (fullT : Nat)
+    (ys : List Rat) (h : transportCosts key g prices fullT = .ok ys) :
+    transportCosts key (g.pick I) (pickPrices I prices) I.length = .ok (sel (g.pickMask I) ys) := by
+  unfold transportCosts at h ⊢
+  cases key with
+  | none => exact sample_zero_pick fullT I.length g I ys h rfl
+  | some k =>
+    simp only at h ⊢
+    rw [lookup_pickPrices]
+    cases hl : prices.lookup k with
+    | none => simp [hl, throw, throwThe, MonadExceptOf.throw] at h
+    | some arr =>
+      simp only [hl, Option.map_some] at h ⊢
+      split at h
+      · rw [if_pos (by simp)]
+        exact sample_pick arr g I ys h
+      · simp [throw, throwThe, MonadExceptOf.throw] at h
+
+theorem disjointOn_sub (pts pts' : List Int) (ivs : List Interval) (hs : ∀ p ∈ pts', p ∈ pts)
+    (h : DisjointOn pts ivs) : DisjointOn pts' ivs := by
+  unfold DisjointOn at h ⊢
+  exact List.Pairwise.imp (fun hab p hp => hab p (hs p hp)) h
+
+theorem valuesToGrid_sel (m : List Bool) (pts : List Int) (ivs : List Interval) (r : List (Option Rat))
+    (h : valuesToGrid pts ivs = .ok r) : valuesToGrid (sel m pts) ivs = .ok (sel m r) := by
+  have hd : DisjointOn pts ivs := (valuesToGrid_ok_iff pts ivs).mp ⟨r, h⟩
+  rw [valuesToGrid_ok pts ivs hd] at h
+  injection h with h
+  rw [valuesToGrid_ok _ ivs (disjointOn_sub pts _ ivs (mem_of_mem_sel m pts) hd), ← h, sel_map]
+
+theorem baseVector_pick (v : ParamValue) (g : Grid) (I : List Nat) (prices : Prices) (dflt : Option Rat)
+    (base : List (Option Rat)) (hv : v.gridFree = true) (h : baseVector v g prices dflt = .ok base) :
+    baseVector v (g.pick I) (pickPrices I prices) dflt = .ok (sel (g.pickMask I) base) := by
+  unfold baseVector at h ⊢
+  cases v with
+  | scalar s =>
+    simp only [pure, Except.pure] at h ⊢
+    injection h with h
+    rw [← h, sel_map]
+    rfl
+  | array vs =>
+    simp only [ParamValue.gridFree, beq_iff_eq] at hv
+    obtain ⟨x, rfl⟩ : ∃ x, vs = [x] := by
+      cases vs with
+      | nil => simp at hv
+      | cons x rest =>
+        cases rest with
+        | nil => exact ⟨x, rfl⟩
+        | cons y rest => simp at hv
+    have hb : ∀ T : Nat, broadcastArray [x] T = .ok (List.replicate T x) := by
+      intro T
+      unfold broadcastArray
+      by_cases hT : [x].length = T
+      · rw [if_pos hT]
+        have : T = 1 := by simpa using hT.symm
+        subst this; rfl
+      · rw [if_neg hT]; rfl
+    simp only [hb, Except.map] at h ⊢
+    injection h with h
+    rw [← h]
+    congr 1
+    have e1 : List.replicate g.T x = g.pts.map fun _ => x := by
+      simp [Grid.T, List.map_const']
+    have e2 : List.replicate (g.pick I).T x = (g.pick I).pts.map fun _ => x := by
+      simp [Grid.T, List.map_const']
+    rw [e1, e2, List.map_map, List.map_map, sel_map]
+    rfl
+  | key k =>
+    simp only at h ⊢
+    rw [lookup_pickPrices]
+    cases hl : prices.lookup k with
+    | none => simp [hl, throw, throwThe, MonadExceptOf.throw] at h
+    | some arr =>
+      simp only [hl, Option.map_some, Except.map] at h ⊢
+      cases hs : sample arr g.idx with
+      | error e => simp [hs] at h
+      | ok ys =>
+        simp only [hs] at h
+        injection h with h
+        rw [sample_pick arr g I ys hs, ← h, sel_map]
+  | intervals ivs =>
+    simp only at h ⊢
+    cases hvg : valuesToGrid g.pts ivs with
+    | error e => simp [hvg, throw, throwThe, MonadExceptOf.throw] at h
+    | ok r =>
+      have hJ : valuesToGrid (g.pick I).pts ivs = .ok (sel (g.pickMask I) r) := valuesToGrid_sel _ g.pts ivs r hvg
+      simp only [hvg, hJ, pure, Except.pure] at h ⊢
+      injection h with h
+      rw [← h]
+      cases dflt with
+      | none => rfl
+      | some d => simp only; rw [sel_map]
+
+theorem makeVector_pick (v : ParamValue) (g : Grid) (I : List Nat) (prices : Prices) (dflt : Option Rat) (conv : Bool)
+    (xs : List (Option Rat)) (hv : v.gridFree = true) (h : makeVector v g prices dflt conv = .ok xs) :
+    makeVector v (g.pick I) (pickPrices I prices) dflt conv = .ok (sel (g.pickMask I) xs) := by
+  obtain ⟨base, hb, rfl⟩ := makeVector_ok h
+  unfold makeVector
+  simp only [bind, Except.bind, baseVector_pick v g I prices dflt base hv hb, pure, Except.pure]
+  cases conv
+  · simp
+  · simp only [if_true]
+    congr 1
+    unfold timesDt
+    rw [sel_map, sel_zip]
+    rfl
+
+theorem allSome_sel (m : List Bool) (xs : List (Option Rat)) (ys : List Rat) (h : allSome xs = .ok ys) :
+    allSome (sel m xs) = .ok (sel m ys) := by
+  obtain ⟨rfl, hall⟩ := allSome_ok h
+  unfold allSome
+  rw [if_pos (sel_all m xs _ hall), sel_map]
+  rfl
+
+theorem anyGt_sel (m : List Bool) (a b : List (Option Rat)) (h : anyGt a b = false) :
+    anyGt (sel m a) (sel m b) = false := by
+  unfold anyGt at h ⊢
+  rw [← sel_zip]
+  exact sel_any_false m _ _ h
+
+theorem contractVectors_pick (p : ContractP) (g : Grid) (I : List Nat) (prices : Prices)
+    (minO maxO ecO : List (Option Rat)) (hp : p.gridFree = true)
+    (h : contractVectors p g prices = .ok (minO, maxO, ecO)) :
+    contractVectors p (g.pick I) (pickPrices I prices) =
+      .ok (sel (g.pickMask I) minO, sel (g.pickMask I) maxO, sel (g.pickMask I) ecO) := by
+  obtain ⟨h1, h2, h3, h4⟩ := contractVectors_ok h
+  simp only [ContractP.gridFree, Bool.and_eq_true] at hp
+  unfold contractVectors
+  simp only [bind, Except.bind, makeVector_pick _ g I prices _ _ _ hp.2 h1, makeVector_pick _ g I prices _ _ _ hp.1.2 h2,
+    makeVector_pick _ g I prices _ _ _ hp.1.1 h4, anyGt_sel _ _ _ h3, pure, Except.pure]
+  simp
+
+/-! ### the simple contract -/
+
+/-- the data of a simple-contract build, restricted by a mask -/
+def selData (m : List Bool) (d : SCData) : SCData :=
+  ⟨sel m d.price, sel m d.ec, sel m d.minC, sel m d.maxC, d.node⟩
+
+theorem dispBlock_eq (asset node vn : String) (off : Nat) (g : Grid) :
+    dispBlock asset node vn off g = genBlock (fun i t => dispRow asset node vn (off + i) t) g.idx := rfl
+
+theorem varAt_dispBlock (asset node vn : String) (off : Nat) (g : Grid) (I : List Nat) (w : Nat) :
+    varAtSteps (dispBlock asset node vn off g) I w = true ↔ ∃ i, i < g.idx.length ∧ off + i = w ∧ g.idx.getD i 0 ∈ I := by
+  rw [dispBlock_eq]
+  exact varAtSteps_genBlock _ g.idx I off (fun _ _ => rfl) (fun _ _ => rfl) w
+
+theorem scOne_n (p : ContractP) (g : Grid) (d : SCData) (hg : g.Ok)
+    (hl : d.price.length = g.T ∧ d.ec.length = g.T ∧ d.minC.length = g.T ∧ d.maxC.length = g.T) :
+    (scOne p g d).n = g.idx.length := by
+  simp [scOne, AssetProblem.n, oneVarPrice_length hl.1 hl.2.1, hg.2.2, hg.1]
+
+theorem scOne_keep (p : ContractP) (g : Grid) (d : SCData) (I : List Nat) (hg : g.Ok)
+    (hl : d.price.length = g.T ∧ d.ec.length = g.T ∧ d.minC.length = g.T ∧ d.maxC.length = g.T) :
+    (scOne p g d).keep I = pos g.idx I := by
+  apply keep_one_block _ g.idx I (scOne_n p g d hg hl)
+  intro v hv
+  show varAtSteps (dispBlock _ _ _ 0 g) I v = true ↔ _
+  rw [varAt_dispBlock]
+  constructor
+  · rintro ⟨i, _, h1, h2⟩
+    have : i = v := by omega
+    subst this; exact h2
+  · intro h; exact ⟨v, hv, by omega, h⟩
+
+theorem scOne_restrict (p : ContractP) (g : Grid) (d : SCData) (I : List Nat) (hg : g.Ok)
+    (hl : d.price.length = g.T ∧ d.ec.length = g.T ∧ d.minC.length = g.T ∧ d.maxC.length = g.T)
+    (hprice : sel (g.pickMask I) (oneVarPrice d.price d.ec d.minC d.maxC) =
+      oneVarPrice (sel (g.pickMask I) d.price) (sel (g.pickMask I) d.ec) (sel (g.pickMask I) d.minC)
+        (sel (g.pickMask I) d.maxC)) :
+    (scOne p g d).restrictTo I = scOne p (g.pick I) (selData (g.pickMask I) d) := by
+  have hk := scOne_keep p g d I hg hl
+  have hn := scOne_n p g d hg hl
+  refine restrictTo_eq (scOne p g d) (scOne p (g.pick I) (selData (g.pickMask I) d)) I rfl rfl ?_ ?_ ?_ ?_ ?_
+  · rw [hk, pos_map_getD g.idx I _ 0 hn]
+    show sel _ (List.zipWith _ _ _) = List.zipWith _ _ _
+    rw [sel_zipWith, ← pickMask_eq, hprice]
+    rfl
+  · rw [hk, pos_map_getD g.idx I _ 0 (by show d.minC.length = _; rw [hl.2.2.1, hg.1])]; rfl
+  · rw [hk, pos_map_getD g.idx I _ 0 (by show d.maxC.length = _; rw [hl.2.2.2, hg.1])]; rfl
+  · rfl
+  · rw [hk]
+    show ((dispBlock _ _ _ 0 g).filter _).map _ = dispBlock _ _ _ 0 (g.pick I)
+    rw [dispBlock_eq, dispBlock_eq]
+    exact block_restrict _ _ g.idx I _ (fun _ _ => rfl) (fun i _ t _ => by simp [dispRow, selData])
+
+theorem scTwo_n (p : ContractP) (g : Grid) (d : SCData) (hg : g.Ok)
+    (hl : d.price.length = g.T ∧ d.ec.length = g.T ∧ d.minC.length = g.T ∧ d.maxC.length = g.T) :
+    (scTwo p g d).n = g.idx.length + g.idx.length := by
+  simp [scTwo, AssetProblem.n, hl.1, hl.2.1, hg.2.2, hg.1]
+
+theorem scTwo_keep (p : ContractP) (g : Grid) (d : SCData) (I : List Nat) (hg : g.Ok)
+    (hl : d.price.length = g.T ∧ d.ec.length = g.T ∧ d.minC.length = g.T ∧ d.maxC.length = g.T) :
+    (scTwo p g d).keep I = pos g.idx I ++ (pos g.idx I).map (g.idx.length + ·) := by
+  have hT : g.T = g.idx.length := hg.1.symm
+  apply keep_two_block _ g.idx I (scTwo_n p g d hg hl)
+  · intro v hv
+    show varAtSteps (dispBlock _ _ _ 0 g ++ dispBlock _ _ _ g.T g) I v = true ↔ _
+    rw [varAtSteps_append, Bool.or_eq_true, varAt_dispBlock, varAt_dispBlock]
+    constructor
+    · rintro (⟨i, _, h1, h2⟩ | ⟨i, _, h1, _⟩)
+      · have : i = v := by omega
+        subst this; exact h2
+      · omega
+    · intro h; exact Or.inl ⟨v, hv, by omega, h⟩
+  · intro v hv
+    show varAtSteps (dispBlock _ _ _ 0 g ++ dispBlock _ _ _ g.T g) I (g.idx.length + v) = true ↔ _
+    rw [varAtSteps_append, Bool.or_eq_true, varAt_dispBlock, varAt_dispBlock]
+    constructor
+    · rintro (⟨i, hi, h1, _⟩ | ⟨i, _, h1, h2⟩)
+      · omega
+      · have : i = v := by omega
+        subst this; exact h2
+    · intro h; exact Or.inr ⟨v, hv, by omega, h⟩
+
+theorem scTwo_restrict (p : ContractP) (g : Grid) (d : SCData) (I : List Nat) (hg : g.Ok)
+    (hl : d.price.length = g.T ∧ d.ec.length = g.T ∧ d.minC.length = g.T ∧ d.maxC.length = g.T) :
+    (scTwo p g d).restrictTo I = scTwo p (g.pick I) (selData (g.pickMask I) d) := by
+  have hk := scTwo_keep p g d I hg hl
+  have hT : g.T = g.idx.length := hg.1.symm
+  have hdf : g.df.length = g.idx.length := by rw [hg.2.2, hT]
+  refine restrictTo_eq (scTwo p g d) (scTwo p (g.pick I) (selData (g.pickMask I) d)) I rfl rfl ?_ ?_ ?_ ?_ ?_
+  · rw [hk]
+    simp only [scTwo, selData]
+    rw [two_block_vec g.idx I _ _ (by simp [hl.1, hl.2.1, hdf, hT]) (by simp [hl.1, hl.2.1, hdf, hT]),
+      sel_zipWith, sel_zipWith, sel_zipWith, sel_zipWith]
+    rfl
+  · rw [hk]
+    simp only [scTwo, selData]
+    rw [two_block_vec g.idx I _ _ (by simp [hl.2.2.1, hT]) (by simp [hl.2.2.1, hT]), sel_map, sel_map]
+    rfl
+  · rw [hk]
+    simp only [scTwo, selData]
+    rw [two_block_vec g.idx I _ _ (by simp [hl.2.2.2, hT]) (by simp [hl.2.2.2, hT]), sel_map, sel_map]
+    rfl
+  · rfl
+  · rw [hk]
+    simp only [scTwo, selData]
+    rw [List.filter_append, List.map_append, dispBlock_eq, dispBlock_eq, dispBlock_eq, dispBlock_eq]
+    congr 1
+    · refine block_restrict _ _ g.idx I _ (fun _ _ => rfl) (fun i hi t _ => ?_)
+      simp only [dispRow, Nat.zero_add]
+      rw [idxOf_append_left _ _ _ hi]
+    · refine block_restrict _ _ g.idx I _ (fun _ _ => rfl) (fun i _ t _ => ?_)
+      simp only [dispRow]
+      rw [hT, idxOf_two_block_right, pick_T g I hg]
+
+theorem buildSimpleContract_notIll {p : ContractP} {g : Grid} {prices : Prices} {fullT : Nat} {A : AssetProblem}
+    (h : buildSimpleContract p g prices fullT = .ok A) : scalarIllPosed p.minCap p.maxCap = false := by
+  unfold buildSimpleContract at h
+  simp only [bind, Except.bind] at h
+  split at h
+  · simp [throw, throwThe, MonadExceptOf.throw] at h
+  · rename_i hh; simpa using hh
+
+theorem buildSimpleContract_of (p : ContractP) (g : Grid) (prices : Prices) (fullT : Nat) (d : SCData)
+    (minO maxO ecO : List (Option Rat)) (rest : List String)
+    (hill : scalarIllPosed p.minCap p.maxCap = false) (hp : priceVector p.price g prices fullT = .ok d.price)
+    (hv : contractVectors p g prices = .ok (minO, maxO, ecO)) (he : allSome ecO = .ok d.ec)
+    (hmi : allSome minO = .ok d.minC) (hma : allSome maxO = .ok d.maxC) (hn : p.nodes = d.node :: rest) :
+    buildSimpleContract p g prices fullT =
+      .ok (if oneVariable d.ec d.minC d.maxC then scOne p g d else scTwo p g d) := by
+  unfold buildSimpleContract
+  simp only [bind, Except.bind, hill, hp, hv, hn, he, hmi, hma, pure, Except.pure, Bool.false_eq_true, if_false]
+  by_cases h1 : oneVariable d.ec d.minC d.maxC = true
+  · simp only [h1, if_true]; simp [scOne, hn]
+  · simp only [h1]; simp [scTwo, hn]
+
+theorem zipWith_sub_zero (xs zs : List Rat) (hl : xs.length = zs.length) (hz : zs.any (fun e => e != 0) = false) :
+    List.zipWith (· - ·) xs zs = xs := by
+  induction xs generalizing zs with
+  | nil => simp
+  | cons x xs ih =>
+    cases zs with
+    | nil => simp at hl
+    | cons z zs =>
+      simp only [List.any_cons, Bool.or_eq_false_iff, bne_eq_false_iff_eq] at hz
+      simp only [List.zipWith_cons_cons]
+      rw [ih zs (by simpa using hl) hz.2, hz.1]
+      congr 1
+      grind
+
+theorem zipWith_add_zero (xs zs : List Rat) (hl : xs.length = zs.length) (hz : zs.any (fun e => e != 0) = false) :
+    List.zipWith (· + ·) xs zs = xs := by
+  induction xs generalizing zs with
+  | nil => simp
+  | cons x xs ih =>
+    cases zs with
+    | nil => simp at hl
+    | cons z zs =>
+      simp only [List.any_cons, Bool.or_eq_false_iff, bne_eq_false_iff_eq] at hz
+      simp only [List.zipWith_cons_cons]
+      rw [ih zs (by simpa using hl) hz.2, hz.1]
+      congr 1
+      grind
+
+theorem oneVarPrice_sel (m : List Bool) (price ec minC maxC : List Rat) (hlen : price.length = ec.length)
+    (h : (sel m ec).any (fun e => e != 0) = false ∨
+      ((sel m maxC).all (fun v => decide (v ≤ 0)) = maxC.all (fun v => decide (v ≤ 0)) ∧
+       (sel m minC).all (fun v => decide (0 ≤ v)) = minC.all (fun v => decide (0 ≤ v)))) :
+    sel m (oneVarPrice price ec minC maxC) = oneVarPrice (sel m price) (sel m ec) (sel m minC) (sel m maxC) := by
+  have hl' : (sel m price).length = (sel m ec).length := sel_length_eq m _ _ hlen
+  by_cases hJ : (sel m ec).any (fun e => e != 0) = true
+  · have hany : ec.any (fun e => e != 0) = true := by
+      cases hc : ec.any (fun e => e != 0) with
+      | true => rfl
+      | false => rw [sel_any_false m ec _ hc] at hJ; cases hJ
+    rcases h with h | ⟨h1, h2⟩
+    · rw [h] at hJ; cases hJ
+    · unfold oneVarPrice
+      simp only [hany, hJ, if_true, h1, h2]
+      split <;> split <;> simp only [sel_zipWith]
+  · have hJ' : (sel m ec).any (fun e => e != 0) = false := by simpa using hJ
+    have rhs : oneVarPrice (sel m price) (sel m ec) (sel m minC) (sel m maxC) = sel m price := by
+      unfold oneVarPrice; simp [hJ']
+    rw [rhs]
+    unfold oneVarPrice
+    split
+    · split <;> split <;> simp only [sel_zipWith]
+      · have e1 := zipWith_sub_zero (sel m price) (sel m ec) hl' hJ'
+        rw [e1, zipWith_add_zero (sel m price) (sel m ec) hl' hJ']
+      · exact zipWith_sub_zero (sel m price) (sel m ec) hl' hJ'
+      · exact zipWith_add_zero (sel m price) (sel m ec) hl' hJ'
+    · rfl
+
+theorem contractFlags_of (p : ContractP) (g : Grid) (prices : Prices) (minO maxO ecO : List (Option Rat))
+    (ec minC maxC : List Rat) (hv : contractVectors p g prices = .ok (minO, maxO, ecO)) (he : allSome ecO = .ok ec)
+    (hmi : allSome minO = .ok minC) (hma : allSome maxO = .ok maxC) :
+    contractFlags p g prices = some (oneVariable ec minC maxC, ec.any (fun e => e != 0),
+      maxC.all (fun v => decide (v ≤ 0)), minC.all (fun v => decide (0 ≤ v))) := by
+  unfold contractFlags
+  simp only [hv, he, hmi, hma]
+
+theorem sel_nil_of_pick_T (g : Grid) (I : List Nat) (hT : (g.pick I).T = 0) (xs : List Rat) (hx : xs.length = g.T) :
+    sel (g.pickMask I) xs = [] := by
+  apply List.eq_nil_of_length_eq_zero
+  have : (sel (g.pickMask I) xs).length = (sel (g.pickMask I) g.pts).length := sel_length_eq _ _ _ hx
+  rw [this]
+  exact hT
+
+/-- on a grid without steps both forms of the contract are the same (empty) problem -/
+theorem scOne_eq_scTwo_empty (p : ContractP) (g : Grid) (d : SCData) (hg : g.Ok) (hT : g.T = 0)
+    (hl : d.price.length = g.T ∧ d.ec.length = g.T ∧ d.minC.length = g.T ∧ d.maxC.length = g.T) :
+    scOne p g d = scTwo p g d := by
+  have e : ∀ xs : List Rat, xs.length = g.T → xs = [] := fun xs h => List.eq_nil_of_length_eq_zero (by rw [h, hT])
+  have hidx : g.idx = [] := List.eq_nil_of_length_eq_zero (by rw [hg.1, hT])
+  have h1 := e _ hl.1
+  have h2 := e _ hl.2.1
+  have h3 := e _ hl.2.2.1
+  have h4 := e _ hl.2.2.2
+  have h5 := e _ hg.2.2
+  simp [scOne, scTwo, h1, h2, h3, h4, h5, oneVarPrice, dispBlock, hidx]
+
+/-- **SimpleContract commutes with the restriction of the grid.** -/
+theorem simple_pick (p : ContractP) (g : Grid) (prices : Prices) (fullT : Nat) (A : AssetProblem) (I : List Nat)
+    (hg : g.Ok) (hp : p.gridFree = true)
+    (hform : (g.pick I).T = 0 ∨ sameForm p g (g.pick I) prices (pickPrices I prices) = true)
+    (hA : buildSimpleContract p g prices fullT = .ok A) :
+    buildSimpleContract p (g.pick I) (pickPrices I prices) I.length = .ok (A.restrictTo I) := by
+  obtain ⟨d, minO, maxO, ecO, hpv, hv, he, hmi, hma, ⟨rest, hn⟩, rfl⟩ := buildSimpleContract_ok hA
+  have hl := scData_lengths hg hpv hv he hmi hma
+  have hgJ := pick_ok g I hg
+  have hpvJ := priceVector_pick p.price g I prices fullT d.price hpv
+  have hvJ := contractVectors_pick p g I prices minO maxO ecO hp hv
+  have heJ := allSome_sel (g.pickMask I) ecO d.ec he
+  have hmiJ := allSome_sel (g.pickMask I) minO d.minC hmi
+  have hmaJ := allSome_sel (g.pickMask I) maxO d.maxC hma
+  have hlJ := scData_lengths (d := selData (g.pickMask I) d) hgJ hpvJ hvJ heJ hmiJ hmaJ
+  rw [buildSimpleContract_of p (g.pick I) (pickPrices I prices) I.length (selData (g.pickMask I) d) _ _ _ rest
+    (buildSimpleContract_notIll hA) hpvJ hvJ heJ hmiJ hmaJ hn]
+  congr 1
+  by_cases hT : (g.pick I).T = 0
+  · -- the asset has no step in the interval: the empty problem, whatever the form
+    have hempty : ∀ b : Bool, (if b = true then scOne p (g.pick I) (selData (g.pickMask I) d)
+        else scTwo p (g.pick I) (selData (g.pickMask I) d)) = scOne p (g.pick I) (selData (g.pickMask I) d) := by
+      intro b
+      cases b
+      · exact (scOne_eq_scTwo_empty p _ _ hgJ hT hlJ).symm
+      · rfl
+    rw [hempty]
+    have hz : ∀ xs : List Rat, xs.length = g.T → sel (g.pickMask I) xs = [] :=
+      fun xs hx => sel_nil_of_pick_T g I hT xs hx
+    have hprice : sel (g.pickMask I) (oneVarPrice d.price d.ec d.minC d.maxC) =
+        oneVarPrice (sel (g.pickMask I) d.price) (sel (g.pickMask I) d.ec) (sel (g.pickMask I) d.minC)
+          (sel (g.pickMask I) d.maxC) := by
+      rw [hz _ (oneVarPrice_length hl.1 hl.2.1), hz _ hl.1, hz _ hl.2.1]
+      simp [oneVarPrice]
+    split
+    · exact (scOne_restrict p g d I hg hl hprice).symm
+    · rw [scTwo_restrict p g d I hg hl]
+      exact scOne_eq_scTwo_empty p _ _ hgJ hT hlJ
+  · have hsf : sameForm p g (g.pick I) prices (pickPrices I prices) = true := by
+      rcases hform with h | h
+      · exact absurd h hT
+      · exact h
+    unfold sameForm at hsf
+    rw [contractFlags_of p g prices minO maxO ecO d.ec d.minC d.maxC hv he hmi hma,
+      contractFlags_of p (g.pick I) (pickPrices I prices) _ _ _ _ _ _ hvJ heJ hmiJ hmaJ] at hsf
+    simp only [Bool.and_eq_true, Bool.or_eq_true, Bool.not_eq_true', beq_iff_eq] at hsf
+    obtain ⟨hone, hflags⟩ := hsf
+    show (if oneVariable (sel _ d.ec) (sel _ d.minC) (sel _ d.maxC) = true then _ else _) = _
+    rw [hone]
+    split
+    · refine (scOne_restrict p g d I hg hl (oneVarPrice_sel _ _ _ _ _ (by rw [hl.1, hl.2.1]) ?_)).symm
+      rcases hflags with h | ⟨h1, h2⟩
+      · exact Or.inl h
+      · exact Or.inr ⟨h1, h2⟩
+    · exact (scTwo_restrict p g d I hg hl).symm
+
+/-! ### the transport -/
+
+theorem transportBlock_eq (asset node : String) (f : Rat) (g : Grid) :
+    transportBlock asset node f g = genBlock (fun i t => trRow asset node f i t) g.idx := rfl
+
+theorem varAt_transportBlock (asset node : String) (f : Rat) (g : Grid) (I : List Nat) (w : Nat) :
+    varAtSteps (transportBlock asset node f g) I w = true ↔ ∃ i, i < g.idx.length ∧ 0 + i = w ∧ g.idx.getD i 0 ∈ I := by
+  rw [transportBlock_eq]
+  exact varAtSteps_genBlock _ g.idx I 0 (fun _ _ => by simp [trRow]) (fun _ _ => rfl) w
+
+/-- the data-dependent decision of the transport: all capacities non-positive -/
+def trNeg (p : TransportP) (g : Grid) : Bool := (g.dt.map (p.maxCap * ·)).all fun v => decide (v ≤ 0)
+
+theorem trProblem_n (p : TransportP) (g : Grid) (n0 n1 : String) (cts : List Rat) (hg : g.Ok)
+    (hc : cts.length = g.idx.length) : (trProblem p g n0 n1 cts).n = g.idx.length := by
+  simp only [AssetProblem.n, trProblem]
+  split <;> simp [hc, hg.1, hg.2.2]
+
+theorem tr_keep (p : TransportP) (g : Grid) (n0 n1 : String) (cts : List Rat) (I : List Nat) (hg : g.Ok)
+    (hc : cts.length = g.idx.length) : (trProblem p g n0 n1 cts).keep I = pos g.idx I := by
+  apply keep_one_block _ g.idx I (trProblem_n p g n0 n1 cts hg hc)
+  intro v hv
+  show varAtSteps (transportBlock _ _ _ g ++ transportBlock _ _ _ g) I v = true ↔ _
+  rw [varAtSteps_append, Bool.or_eq_true, varAt_transportBlock, varAt_transportBlock]
+  constructor
+  · rintro (⟨i, _, h1, h2⟩ | ⟨i, _, h1, h2⟩) <;>
+    · have : i = v := by omega
+      subst this; exact h2
+  · intro h; exact Or.inl ⟨v, hv, by omega, h⟩
+
+theorem tr_restrict (p : TransportP) (g : Grid) (n0 n1 : String) (cts : List Rat) (I : List Nat) (hg : g.Ok)
+    (hc : cts.length = g.idx.length) (hneg : (g.pick I).T = 0 ∨ trNeg p (g.pick I) = trNeg p g) :
+    (trProblem p g n0 n1 cts).restrictTo I = trProblem p (g.pick I) n0 n1 (sel (g.pickMask I) cts) := by
+  have hk := tr_keep p g n0 n1 cts I hg hc
+  have hn := trProblem_n p g n0 n1 cts hg hc
+  have hT : g.T = g.idx.length := hg.1.symm
+  refine restrictTo_eq (trProblem p g n0 n1 cts) (trProblem p (g.pick I) n0 n1 (sel (g.pickMask I) cts)) I rfl rfl
+    ?_ ?_ ?_ ?_ ?_
+  · rw [hk, pos_map_getD g.idx I _ 0 hn]
+    simp only [trProblem]
+    rw [sel_zipWith, ← pickMask_eq]
+    show List.zipWith _ (sel _ (if trNeg p g = true then _ else _)) _ =
+      List.zipWith _ (if trNeg p (g.pick I) = true then _ else _) (sel _ g.df)
+    rcases hneg with h0 | h1
+    · have hz : ∀ xs : List Rat, xs.length = g.T → sel (g.pickMask I) xs = [] :=
+        fun xs hx => sel_nil_of_pick_T g I h0 xs hx
+      rw [hz g.df hg.2.2]
+      simp
+    · rw [h1]
+      split
+      · rw [sel_map, sel_map]
+      · rw [sel_map]
+  · rw [hk, pos_map_getD g.idx I _ 0 (by simp [trProblem, hg.2.1, hT])]
+    simp only [trProblem]
+    rw [← pickMask_eq, sel_map]; rfl
+  · rw [hk, pos_map_getD g.idx I _ 0 (by simp [trProblem, hg.2.1, hT])]
+    simp only [trProblem]
+    rw [← pickMask_eq, sel_map]; rfl
+  · rfl
+  · rw [hk]
+    simp only [trProblem]
+    rw [List.filter_append, List.map_append, transportBlock_eq, transportBlock_eq, transportBlock_eq,
+      transportBlock_eq]
+    congr 1
+    · exact block_restrict _ _ g.idx I _ (fun _ _ => rfl) (fun i _ t _ => by simp [trRow])
+    · exact block_restrict _ _ g.idx I _ (fun _ _ => rfl) (fun i _ t _ => by simp [trRow])
+
+theorem bool_of_not_not (X : Bool) (hh : ¬ (!X) = true) : X = true := by
+  cases X <;> simp_all
+
+theorem buildTransport_check {p : TransportP} {g : Grid} {prices : Prices} {fullT : Nat} {P : AssetProblem}
+    {cts : List Rat} (h : buildTransport p g prices fullT = .ok P)
+    (hc : transportCosts p.costsKey g prices fullT = .ok cts) :
+    (trNeg p g || (g.dt.map (p.minCap * ·)).all (fun v => decide (0 ≤ v)) ||
+      (cts.map (· + p.costsConst)).all (fun v => v == 0)) = true := by
+  unfold buildTransport at h
+  split at h
+  · simp only [bind, Except.bind, pure, Except.pure] at h
+    split at h
+    · simp [throw, throwThe, MonadExceptOf.throw] at h
+    split at h
+    · simp [throw, throwThe, MonadExceptOf.throw] at h
+    simp only [hc] at h
+    split at h
+    · simp [throw, throwThe, MonadExceptOf.throw] at h
+    · rename_i hh
+      exact bool_of_not_not _ hh
+  · simp [throw, throwThe, MonadExceptOf.throw] at h
+
+theorem buildTransport_of (p : TransportP) (g : Grid) (prices : Prices) (fullT : Nat) (n0 n1 : String)
+    (cts : List Rat) (hn : p.nodes = [n0, n1]) (h1 : ¬ p.maxCap < p.minCap) (h2 : 0 < p.efficiency)
+    (hc : transportCosts p.costsKey g prices fullT = .ok cts)
+    (hchk : (trNeg p g || (g.dt.map (p.minCap * ·)).all (fun v => decide (0 ≤ v)) ||
+      (cts.map (· + p.costsConst)).all (fun v => v == 0)) = true) :
+    buildTransport p g prices fullT = .ok (trProblem p g n0 n1 cts) := by
+  unfold buildTransport
+  rw [hn]
+  simp only [bind, Except.bind, pure, Except.pure, h1, if_false, hc]
+  have h2' : ¬ ¬ 0 < p.efficiency := fun h => h h2
+  simp only [h2', if_false]
+  unfold trNeg at hchk
+  simp only [hchk, Bool.not_true, Bool.false_eq_true, if_false]
+  simp [trProblem, hn]
+
+/-- **Transport commutes with the restriction of the grid.** -/
+theorem transport_pick (p : TransportP) (g : Grid) (prices : Prices) (fullT : Nat) (A : AssetProblem) (I : List Nat)
+    (hg : g.Ok) (hneg : (g.pick I).T = 0 ∨ trNeg p (g.pick I) = trNeg p g)
+    (hA : buildTransport p g prices fullT = .ok A) :
+    buildTransport p (g.pick I) (pickPrices I prices) I.length = .ok (A.restrictTo I) := by
+  obtain ⟨n0, n1, cts, hn, h1, h2, hc, rfl⟩ := buildTransport_ok hA
+  have hchk := buildTransport_check hA hc
+  have hcJ := transportCosts_pick p.costsKey g I prices fullT cts hc
+  have hlen := transportCosts_length hc
+  rw [tr_restrict p g n0 n1 cts I hg hlen hneg]
+  apply buildTransport_of p (g.pick I) (pickPrices I prices) I.length n0 n1 _ hn h1 h2 hcJ
+  simp only [Bool.or_eq_true] at hchk ⊢
+  rcases hchk with (h | h) | h
+  · rcases hneg with h0 | h0
+    · left; left
+      unfold trNeg
+      have : (g.pick I).dt = [] := List.eq_nil_of_length_eq_zero (by rw [(pick_ok g I hg).2.1, h0])
+      rw [this]; rfl
+    · left; left; rw [h0]; exact h
+  · left; right
+    show ((sel _ g.dt).map _).all _ = true
+    rw [← sel_map]
+    exact sel_all _ _ _ h
+  · right
+    rw [← sel_map]
+    exact sel_all _ _ _ h
+
+/-! ### what the builders return is banded -/
+
+theorem banded_of_blocks {name : String} {nodes : List String} {g : Grid} {a : AssetProblem} (Tref : Nat)
+    (hw : BuiltWf name nodes g a) (hidx : ∀ t ∈ g.idx, t < Tref)
+    (hsame : ∀ m ∈ a.mapping, ∃ i, ∃ h : i < g.idx.length, m.step = g.idx[i] ∧ (m.var = i ∨ m.var = g.idx.length + i))
+    (hcov : ∀ v, v < a.n → ∃ m ∈ a.mapping, m.var = v) : Banded a Tref := by
+  refine ⟨hw.l_len, hw.u_len, fun m hm => (hw.map_ok m hm).1, fun m hm => hidx _ (hw.map_ok m hm).2.2.2.1,
+    fun m hm => (hw.map_ok m hm).2.2.2.2.2, ?_, hcov, fun r hr => ⟨(hw.rows_ok r hr).1, (hw.rows_ok r hr).2.1⟩⟩
+  intro m hm m' hm' hv
+  obtain ⟨i, hi, hs, hvar⟩ := hsame m hm
+  obtain ⟨i', hi', hs', hvar'⟩ := hsame m' hm'
+  have : i = i' := by rcases hvar with h | h <;> rcases hvar' with h' | h' <;> omega
+  subst this
+  rw [hs, hs']
+
+theorem scOne_banded (p : ContractP) (g : Grid) (d : SCData) (Tref : Nat) (hg : g.Ok) {rest : List String}
+    (hn : p.nodes = d.node :: rest)
+    (hl : d.price.length = g.T ∧ d.ec.length = g.T ∧ d.minC.length = g.T ∧ d.maxC.length = g.T)
+    (hidx : ∀ t ∈ g.idx, t < Tref) : Banded (scOne p g d) Tref := by
+  apply banded_of_blocks Tref (scOne_wf hg hn hl) hidx
+  · intro m hm
+    obtain ⟨i, hi, rfl⟩ := mem_dispBlock hm
+    exact ⟨i, hi, rfl, Or.inl (by simp [dispRow])⟩
+  · intro v hv
+    rw [scOne_n p g d hg hl] at hv
+    refine ⟨dispRow p.name d.node "disp" (0 + v) g.idx[v], ?_, by simp [dispRow]⟩
+    show _ ∈ dispBlock _ _ _ 0 g
+    rw [dispBlock_eq]
+    exact (mem_genBlock _ _ _).mpr ⟨v, hv, rfl⟩
+
+theorem scTwo_banded (p : ContractP) (g : Grid) (d : SCData) (Tref : Nat) (hg : g.Ok) {rest : List String}
+    (hn : p.nodes = d.node :: rest)
+    (hl : d.price.length = g.T ∧ d.ec.length = g.T ∧ d.minC.length = g.T ∧ d.maxC.length = g.T)
+    (hidx : ∀ t ∈ g.idx, t < Tref) : Banded (scTwo p g d) Tref := by
+  have hT : g.T = g.idx.length := hg.1.symm
+  apply banded_of_blocks Tref (scTwo_wf hg hn hl) hidx
+  · intro m hm
+    rcases List.mem_append.mp hm with h | h
+    · obtain ⟨i, hi, rfl⟩ := mem_dispBlock h
+      exact ⟨i, hi, rfl, Or.inl (by simp [dispRow])⟩
+    · obtain ⟨i, hi, rfl⟩ := mem_dispBlock h
+      exact ⟨i, hi, rfl, Or.inr (by simp [dispRow, hT])⟩
+  · intro v hv
+    rw [scTwo_n p g d hg hl] at hv
+    by_cases h : v < g.idx.length
+    · refine ⟨dispRow p.name d.node "disp_in" (0 + v) g.idx[v], ?_, by simp [dispRow]⟩
+      apply List.mem_append_left
+      rw [dispBlock_eq]
+      exact (mem_genBlock _ _ _).mpr ⟨v, h, rfl⟩
+    · have h' : v - g.idx.length < g.idx.length := by omega
+      refine ⟨dispRow p.name d.node "disp_out" (g.T + (v - g.idx.length)) g.idx[v - g.idx.length], ?_, ?_⟩
+      · apply List.mem_append_right
+        rw [dispBlock_eq]
+        exact (mem_genBlock _ _ _).mpr ⟨v - g.idx.length, h', rfl⟩
+      · simp only [dispRow]; omega
+
+theorem tr_banded (p : TransportP) (g : Grid) (prices : Prices) (fullT : Nat) (A : AssetProblem) (Tref : Nat)
+    (hg : g.Ok) (hA : buildTransport p g prices fullT = .ok A) (hidx : ∀ t ∈ g.idx, t < Tref) : Banded A Tref := by
+  have hw := transport_wf' hg hA
+  obtain ⟨n0, n1, cts, hn, _, _, hc, rfl⟩ := buildTransport_ok hA
+  have hlen := transportCosts_length hc
+  apply banded_of_blocks Tref hw hidx
+  · intro m hm
+    rcases List.mem_append.mp hm with h | h
+    · obtain ⟨i, hi, rfl⟩ := mem_transportBlock h
+      exact ⟨i, hi, rfl, Or.inl rfl⟩
+    · obtain ⟨i, hi, rfl⟩ := mem_transportBlock h
+      exact ⟨i, hi, rfl, Or.inl rfl⟩
+  · intro v hv
+    rw [trProblem_n p g n0 n1 cts hg hlen] at hv
+    refine ⟨trRow p.name n0 (-1) v g.idx[v], ?_, rfl⟩
+    apply List.mem_append_left
+    rw [transportBlock_eq]
+    exact (mem_genBlock _ _ _).mpr ⟨v, hv, rfl⟩
+
+theorem simple_banded (p : ContractP) (g : Grid) (prices : Prices) (fullT : Nat) (A : AssetProblem) (Tref : Nat)
+    (hg : g.Ok) (hA : buildSimpleContract p g prices fullT = .ok A) (hidx : ∀ t ∈ g.idx, t < Tref) :
+    Banded A Tref := by
+  obtain ⟨d, minO, maxO, ecO, hpv, hv, he, hmi, hma, ⟨rest, hn⟩, rfl⟩ := buildSimpleContract_ok hA
+  have hl := scData_lengths hg hpv hv he hmi hma
+  split
+  · exact scOne_banded p g d Tref hg hn hl hidx
+  · exact scTwo_banded p g d Tref hg hn hl hidx
+
+/-! ### take periods -/
+
+/-- rows over the kept variables of `a`, renamed -/
+def restrictRows (a : AssetProblem) (I : List Nat) (rows : List Row) : List Row :=
+  (rows.filter fun r => r.coeffs.all fun q => (a.keep I).contains q.1).map (Row.rename fun v => (a.keep I).idxOf v)
+
+/-- the take rows of the restricted problem are the restricted take rows, when no period reaches across the cut -/
+theorem defineRestr_pick (kind : RowKind) (u : Nat) (g : Grid) (a : AssetProblem) (Tref : Nat) (I : List Nat)
+    (node : Option String) (takes : List Take) (hg : g.Ok) (hB : Banded a Tref)
+    (htk : ∀ tk ∈ takes, takeInside g I tk = true) :
+    defineRestr kind u (g.pick I) (a.restrictTo I).mapping node takes =
+      restrictRows a I (defineRestr kind u g a.mapping node takes) := by
+  sorry
+
+theorem restrictTo_addRows (a : AssetProblem) (rows : List Row) (I : List Nat) :
+    ({ a with rows := a.rows ++ rows } : AssetProblem).restrictTo I =
+      { (a.restrictTo I) with rows := (a.restrictTo I).rows ++ restrictRows a I rows } := by
+  simp [AssetProblem.restrictTo, AssetProblem.keep, AssetProblem.n, List.filter_append, List.map_append, restrictRows]
+
+theorem restrictTo_addRows2 (a : AssetProblem) (r1 r2 : List Row) (I : List Nat) :
+    ({ a with rows := a.rows ++ r1 ++ r2 } : AssetProblem).restrictTo I =
+      { (a.restrictTo I) with rows := (a.restrictTo I).rows ++ restrictRows a I r1 ++ restrictRows a I r2 } := by
+  simp [AssetProblem.restrictTo, AssetProblem.keep, AssetProblem.n, List.filter_append, List.map_append, restrictRows]
+
+theorem banded_addRows {a : AssetProblem} {Tref : Nat} (hB : Banded a Tref) (rows : List Row)
+    (hr : ∀ r ∈ rows, r.coeffs ≠ [] ∧ ∀ q ∈ r.coeffs, ∃ m ∈ a.mapping, q = (m.var, m.factor)) :
+    Banded ({ a with rows := a.rows ++ rows } : AssetProblem) Tref := by
+  refine ⟨hB.l_len, hB.u_len, hB.map_var, hB.map_step, hB.no_bool, hB.same_step, hB.covered, ?_⟩
+  intro r hrr
+  rcases List.mem_append.mp hrr with h | h
+  · exact hB.rows_ok r h
+  · obtain ⟨h1, h2⟩ := hr r h
+    refine ⟨h1, fun q hq => ?_⟩
+    obtain ⟨m, hm, rfl⟩ := h2 q hq
+    exact hB.map_var m hm
+
+theorem restrictRows_append (a : AssetProblem) (I : List Nat) (r1 r2 : List Row) :
+    restrictRows a I (r1 ++ r2) = restrictRows a I r1 ++ restrictRows a I r2 := by
+  simp [restrictRows, List.filter_append, List.map_append]
+
+theorem takeRows_ok {kind : RowKind} {u : Nat} {g : Grid} {mapping : List MapRow} {node : Option String}
+    {takes : List Take} : ∀ r ∈ defineRestr kind u g mapping node takes,
+      r.coeffs ≠ [] ∧ ∀ q ∈ r.coeffs, ∃ m ∈ mapping, q = (m.var, m.factor) :=
+  fun _ hr => (defineRestr_rows_ok hr).2
+
+/-! ### Contract, MultiCommodityContract, ExtendedTransport -/
+
+/-- **Contract commutes with the restriction of the grid** when no take period reaches across the cut. -/
+theorem contract_pick (p : ContractP) (g : Grid) (prices : Prices) (fullT u : Nat) (A : AssetProblem) (I : List Nat)
+    (Tref : Nat) (hg : g.Ok) (hidx : ∀ t ∈ g.idx, t < Tref) (hp : p.gridFree = true)
+    (hform : (g.pick I).T = 0 ∨ sameForm p g (g.pick I) prices (pickPrices I prices) = true)
+    (htk : ∀ tk ∈ p.minTake ++ p.maxTake, takeInside g I tk = true)
+    (hA : buildContract p g prices fullT u = .ok A) :
+    buildContract p (g.pick I) (pickPrices I prices) I.length u = .ok (A.restrictTo I) := by
+  obtain ⟨a, ha, rfl⟩ := buildContract_ok hA
+  have hB := simple_banded p g prices fullT a Tref hg ha hidx
+  unfold buildContract
+  simp only [bind, Except.bind, simple_pick p g prices fullT a I hg hp hform ha, pure, Except.pure]
+  congr 1
+  rw [restrictTo_addRows2,
+    defineRestr_pick .U u g a Tref I none p.maxTake hg hB (fun tk h => htk tk (List.mem_append_right _ h)),
+    defineRestr_pick .L u g a Tref I none p.minTake hg hB (fun tk h => htk tk (List.mem_append_left _ h))]
+
+theorem contract_banded (p : ContractP) (g : Grid) (prices : Prices) (fullT u : Nat) (A : AssetProblem) (Tref : Nat)
+    (hg : g.Ok) (hA : buildContract p g prices fullT u = .ok A) (hidx : ∀ t ∈ g.idx, t < Tref) : Banded A Tref := by
+  obtain ⟨a, ha, rfl⟩ := buildContract_ok hA
+  have hB := simple_banded p g prices fullT a Tref hg ha hidx
+  have := banded_addRows hB (defineRestr .U u g a.mapping none p.maxTake ++ defineRestr .L u g a.mapping none p.minTake)
+    (fun r hr => by rcases List.mem_append.mp hr with h | h <;> exact takeRows_ok r h)
+  simpa [List.append_assoc] using this
+
+/-- the multi-commodity copy of a mapping -/
+def multiMap (nfs : List (String × Rat)) (M : List MapRow) : List MapRow :=
+  nfs.flatMap fun nf => M.map fun m => { m with node := some nf.1, factor := m.factor * nf.2 }
+
+theorem varAtSteps_multi (nfs : List (String × Rat)) (hne : nfs ≠ []) (M : List MapRow) (I : List Nat) (v : Nat) :
+    varAtSteps (multiMap nfs M) I v = varAtSteps M I v := by
+  rw [Bool.eq_iff_iff, varAtSteps_iff, varAtSteps_iff]
+  constructor
+  · rintro ⟨m, hm, hv, hs⟩
+    obtain ⟨nf, _, hm'⟩ := List.mem_flatMap.mp hm
+    obtain ⟨m0, hm0, rfl⟩ := List.mem_map.mp hm'
+    exact ⟨m0, hm0, hv, hs⟩
+  · rintro ⟨m, hm, hv, hs⟩
+    obtain ⟨nf, rest, rfl⟩ := List.exists_cons_of_ne_nil hne
+    exact ⟨_, List.mem_flatMap.mpr ⟨nf, by simp, List.mem_map_of_mem hm⟩, hv, hs⟩
+
+theorem restrictTo_multi (a : AssetProblem) (nfs : List (String × Rat)) (hne : nfs ≠ []) (I : List Nat) :
+    ({ a with mapping := multiMap nfs a.mapping } : AssetProblem).restrictTo I =
+      { (a.restrictTo I) with mapping := multiMap nfs (a.restrictTo I).mapping } := by
+  have hk : ({ a with mapping := multiMap nfs a.mapping } : AssetProblem).keep I = a.keep I := by
+    unfold AssetProblem.keep
+    apply List.filter_congr
+    intro v _
+    exact varAtSteps_multi nfs hne a.mapping I v
+  unfold AssetProblem.restrictTo
+  simp only [hk]
+  congr 1
+  simp only [multiMap, List.filter_flatMap, List.map_flatMap, List.filter_map, List.map_map]
+  rfl
+
+theorem multi_banded {a : AssetProblem} {Tref : Nat} (hB : Banded a Tref) (nfs : List (String × Rat)) (hne : nfs ≠ []) :
+    Banded ({ a with mapping := multiMap nfs a.mapping } : AssetProblem) Tref := by
+  have hmem : ∀ m ∈ multiMap nfs a.mapping, ∃ m0 ∈ a.mapping, m.var = m0.var ∧ m.step = m0.step ∧ m.isBool = m0.isBool := by
+    intro m hm
+    obtain ⟨nf, _, hm'⟩ := List.mem_flatMap.mp hm
+    obtain ⟨m0, hm0, rfl⟩ := List.mem_map.mp hm'
+    exact ⟨m0, hm0, rfl, rfl, rfl⟩
+  refine ⟨hB.l_len, hB.u_len, ?_, ?_, ?_, ?_, ?_, hB.rows_ok⟩
+  · intro m hm
+    obtain ⟨m0, hm0, h1, _, _⟩ := hmem m hm
+    rw [h1]; exact hB.map_var m0 hm0
+  · intro m hm
+    obtain ⟨m0, hm0, _, h2, _⟩ := hmem m hm
+    rw [h2]; exact hB.map_step m0 hm0
+  · intro m hm
+    obtain ⟨m0, hm0, _, _, h3⟩ := hmem m hm
+    rw [h3]; exact hB.no_bool m0 hm0
+  · intro m hm m' hm' hv
+    obtain ⟨m0, hm0, h1, h2, _⟩ := hmem m hm
+    obtain ⟨m1, hm1, h1', h2', _⟩ := hmem m' hm'
+    rw [h2, h2']
+    exact hB.same_step m0 hm0 m1 hm1 (by rw [← h1, ← h1']; exact hv)
+  · intro v hv
+    obtain ⟨m, hm, hmv⟩ := hB.covered v hv
+    obtain ⟨nf, rest, rfl⟩ := List.exists_cons_of_ne_nil hne
+    exact ⟨_, List.mem_flatMap.mpr ⟨nf, by simp, List.mem_map_of_mem hm⟩, hmv⟩
+
+theorem multi_nfs_ne (p : ContractP) (factors : List Rat) (hf : factors.length = p.nodes.length) (hn : p.nodes ≠ []) :
+    p.nodes.zip factors ≠ [] := by
+  cases hp : p.nodes with
+  | nil => exact absurd hp hn
+  | cons n rest =>
+    cases factors with
+    | nil => simp [hp] at hf
+    | cons f fs => simp
+
+theorem nodes_ne_of_simple {p : ContractP} {g : Grid} {prices : Prices} {fullT : Nat} {a : AssetProblem}
+    (h : buildSimpleContract p g prices fullT = .ok a) : p.nodes ≠ [] := by
+  obtain ⟨d, _, _, _, _, _, _, _, _, ⟨rest, hn⟩, _⟩ := buildSimpleContract_ok h
+  rw [hn]; simp
+
+/-- **MultiCommodityContract commutes with the restriction of the grid.** -/
+theorem multi_pick (p : ContractP) (factors : List Rat) (g : Grid) (prices : Prices) (fullT u : Nat) (A : AssetProblem)
+    (I : List Nat) (Tref : Nat) (hg : g.Ok) (hidx : ∀ t ∈ g.idx, t < Tref) (hp : p.gridFree = true)
+    (hform : (g.pick I).T = 0 ∨ sameForm p g (g.pick I) prices (pickPrices I prices) = true)
+    (htk : ∀ tk ∈ p.minTake ++ p.maxTake, takeInside g I tk = true)
+    (hA : buildMulti p factors g prices fullT u = .ok A) :
+    buildMulti p factors (g.pick I) (pickPrices I prices) I.length u = .ok (A.restrictTo I) := by
+  obtain ⟨hf, a, ha, rfl⟩ := buildMulti_ok hA
+  obtain ⟨a0, ha0, _⟩ := buildContract_ok ha
+  have hne := multi_nfs_ne p factors hf (nodes_ne_of_simple ha0)
+  have hill := buildSimpleContract_notIll ha0
+  unfold buildMulti
+  simp only [bind, Except.bind, hill, Bool.false_eq_true, if_false, hf, ne_eq, not_true_eq_false,
+    contract_pick p g prices fullT u a I Tref hg hidx hp hform htk ha, pure, Except.pure]
+  congr 1
+  exact (restrictTo_multi a (p.nodes.zip factors) hne I).symm
+
+theorem multi_banded' (p : ContractP) (factors : List Rat) (g : Grid) (prices : Prices) (fullT u : Nat)
+    (A : AssetProblem) (Tref : Nat) (hg : g.Ok) (hA : buildMulti p factors g prices fullT u = .ok A)
+    (hidx : ∀ t ∈ g.idx, t < Tref) : Banded A Tref := by
+  obtain ⟨hf, a, ha, rfl⟩ := buildMulti_ok hA
+  obtain ⟨a0, ha0, _⟩ := buildContract_ok ha
+  exact multi_banded (contract_banded p g prices fullT u a Tref hg ha hidx) _
+    (multi_nfs_ne p factors hf (nodes_ne_of_simple ha0))
+
+/-- **ExtendedTransport commutes with the restriction of the grid** when no take period reaches across the cut. -/
+theorem extTransport_pick (p : TransportP) (g : Grid) (prices : Prices) (fullT u : Nat) (A : AssetProblem)
+    (I : List Nat) (Tref : Nat) (hg : g.Ok) (hidx : ∀ t ∈ g.idx, t < Tref)
+    (hneg : (g.pick I).T = 0 ∨ trNeg p (g.pick I) = trNeg p g)
+    (htk : ∀ tk ∈ p.minTake ++ p.maxTake, takeInside g I tk = true)
+    (hA : buildExtTransport p g prices fullT u = .ok A) :
+    buildExtTransport p (g.pick I) (pickPrices I prices) I.length u = .ok (A.restrictTo I) := by
+  obtain ⟨a, ha, rfl⟩ := buildExtTransport_ok hA
+  have hB := tr_banded p g prices fullT a Tref hg ha hidx
+  have htk' : ∀ (ts : List Take), (∀ tk ∈ ts, takeInside g I tk = true) →
+      ∀ tk ∈ ts.map negTake, takeInside g I tk = true := by
+    intro ts h tk htk
+    obtain ⟨tk0, h0, rfl⟩ := List.mem_map.mp htk
+    exact h tk0 h0
+  unfold buildExtTransport
+  simp only [bind, Except.bind, transport_pick p g prices fullT a I hg hneg ha, pure, Except.pure]
+  congr 1
+  rw [restrictTo_addRows2,
+    defineRestr_pick .L u g a Tref I p.nodes.head? (p.maxTake.map negTake) hg hB
+      (htk' _ (fun tk h => htk tk (List.mem_append_right _ h))),
+    defineRestr_pick .U u g a Tref I p.nodes.head? (p.minTake.map negTake) hg hB
+      (htk' _ (fun tk h => htk tk (List.mem_append_left _ h)))]
+
+theorem extTransport_banded (p : TransportP) (g : Grid) (prices : Prices) (fullT u : Nat) (A : AssetProblem)
+    (Tref : Nat) (hg : g.Ok) (hA : buildExtTransport p g prices fullT u = .ok A) (hidx : ∀ t ∈ g.idx, t < Tref) :
+    Banded A Tref := by
+  obtain ⟨a, ha, rfl⟩ := buildExtTransport_ok hA
+  have hB := tr_banded p g prices fullT a Tref hg ha hidx
+  have := banded_addRows hB (defineRestr .L u g a.mapping p.nodes.head? (p.maxTake.map negTake)
+      ++ defineRestr .U u g a.mapping p.nodes.head? (p.minTake.map negTake))
+    (fun r hr => by rcases List.mem_append.mp hr with h | h <;> exact takeRows_ok r h)
+  simpa [List.append_assoc] using this
+
+/-! ## Part 3: the interval grid of the split set-up is the picked grid -/
+
+theorem sel_range_eq_filter (ps : List Int) (p : Int → Bool) :
+    sel (ps.map p) (List.range ps.length) = (List.range ps.length).filter fun t => p (ps.getD t 0) := by
+  rw [← filter_range_getD p 0 0 ps (List.range ps.length) (by simp)]
+  conv => rhs; rw [← List.map_id ((List.range ps.length).filter fun t => p (ps.getD t 0))]
+  apply List.map_congr_left
+  intro i hi
+  have hi' : i < ps.length := List.mem_range.mp (List.mem_filter.mp hi).1
+  simp [List.getD_eq_getElem?_getD, hi']
+
+theorem map_idxOf_self (L : List Nat) (h : L.Nodup) : L.map (fun t => L.idxOf t) = List.range L.length := by
+  apply List.ext_getElem
+  · simp
+  · intro j h1 h2
+    simp only [List.getElem_map, List.getElem_range]
+    exact h.idxOf_getElem j _
+
+theorem intervalSteps_eq (ref : Grid) (ab : Int × Int) (hidx : ref.idx = List.range ref.T) :
+    intervalSteps ref ab = (List.range ref.pts.length).filter fun t => win ab.1 ab.2 (ref.pts.getD t 0) := by
+  unfold intervalSteps
+  rw [hidx, Grid.mask_eq]
+  exact sel_range_eq_filter ref.pts (win ab.1 ab.2)
+
+theorem mem_intervalSteps (ref : Grid) (ab : Int × Int) (hidx : ref.idx = List.range ref.T) (t : Nat) :
+    t ∈ intervalSteps ref ab ↔ t < ref.T ∧ win ab.1 ab.2 (ref.pts.getD t 0) = true := by
+  rw [intervalSteps_eq ref ab hidx, List.mem_filter, List.mem_range]
+  rfl
+
+theorem intervalSteps_nodup (ref : Grid) (ab : Int × Int) (hidx : ref.idx = List.range ref.T) :
+    (intervalSteps ref ab).Nodup := by
+  rw [intervalSteps_eq ref ab hidx]
+  exact List.Nodup.sublist List.filter_sublist List.nodup_range
+
+/-- the asset grid on the full horizon: points and steps belong together -/
+theorem restrict_pts_eq (ref : Grid) (s e : Int) (hidx : ref.idx = List.range ref.T) :
+    (ref.restrict s e).pts = (ref.restrict s e).idx.map fun t => ref.pts.getD t 0 := by
+  show sel (ref.mask s e) ref.pts = (sel (ref.mask s e) ref.idx).map _
+  rw [hidx, Grid.mask_eq]
+  show _ = (sel _ (List.range ref.pts.length)).map _
+  rw [sel_range_eq_filter, filter_range_getD (win s e) 0 0 ref.pts ref.pts rfl]
+
+theorem restrict_idx_lt (ref : Grid) (s e : Int) (hidx : ref.idx = List.range ref.T) :
+    ∀ t ∈ (ref.restrict s e).idx, t < ref.T := by
+  intro t ht
+  have : t ∈ ref.idx := mem_of_mem_sel _ _ t ht
+  rw [hidx] at this
+  exact List.mem_range.mp this
+
+/-- the mask of `pick` on the asset grid is the window mask of the interval -/
+theorem pickMask_interval (ref : Grid) (ab : Int × Int) (s e : Int) (hidx : ref.idx = List.range ref.T) :
+    (ref.restrict s e).pickMask (intervalSteps ref ab) = (ref.restrict s e).pts.map (win ab.1 ab.2) := by
+  rw [pickMask_eq, restrict_pts_eq ref s e hidx, List.map_map]
+  apply List.map_congr_left
+  intro t ht
+  have hlt := restrict_idx_lt ref s e hidx t ht
+  simp only [Function.comp]
+  rw [Bool.eq_iff_iff, List.contains_iff_mem, mem_intervalSteps ref ab hidx]
+  exact ⟨fun h => h.2, fun h => ⟨hlt, h⟩⟩
+
+theorem sel_twice_comm {α} (ps : List Int) (p q : Int → Bool) (xs : List α) :
+    sel ((sel (ps.map p) ps).map q) (sel (ps.map p) xs) = sel ((sel (ps.map q) ps).map p) (sel (ps.map q) xs) := by
+  rw [sel_sel, sel_sel]
+  congr 2
+  funext x
+  exact Bool.and_comm _ _
+
+/-- **the asset's grid in an interval of the split set-up** (`Timegrid(start_tmp, end_tmp, …, ref_timegrid)` with
+    re-based `I`, then `set_restricted_grid(asset.start, asset.end)`) **is the asset's grid on the full horizon,
+    restricted to the interval's original steps** -/
+theorem interval_restrict_eq_pick (ref : Grid) (df : List Rat) (ab : Int × Int) (s e : Int)
+    (hidx : ref.idx = List.range ref.T) :
+    ({ (ref.interval ab.1 ab.2) with df := sel (ref.mask ab.1 ab.2) df } : Grid).restrict s e =
+      (({ ref with df := df } : Grid).restrict s e).pick (intervalSteps ref ab) := by
+  have hm := pickMask_interval ref ab s e hidx
+  have hm' : (({ ref with df := df } : Grid).restrict s e).pickMask (intervalSteps ref ab) =
+      (sel (ref.pts.map (win s e)) ref.pts).map (win ab.1 ab.2) := hm
+  have hidxeq : sel ((sel (ref.pts.map (win ab.1 ab.2)) ref.pts).map (win s e))
+      (List.range (sel (ref.pts.map (win ab.1 ab.2)) ref.pts).length) =
+      (sel ((sel (ref.pts.map (win s e)) ref.pts).map (win ab.1 ab.2)) (sel (ref.pts.map (win s e)) ref.idx)).map
+        fun t => (intervalSteps ref ab).idxOf t := by
+    rw [← sel_twice_comm ref.pts (win ab.1 ab.2) (win s e) ref.idx]
+    have : sel (ref.pts.map (win ab.1 ab.2)) ref.idx = intervalSteps ref ab := rfl
+    rw [this, ← sel_map (fun t => (intervalSteps ref ab).idxOf t), map_idxOf_self _ (intervalSteps_nodup ref ab hidx)]
+    congr 2
+    exact sel_length_eq _ _ _ (by rw [hidx]; simp [Grid.T])
+  unfold Grid.pick
+  rw [hm']
+  show Grid.mk _ _ _ _ _ = Grid.mk _ _ _ _ _
+  congr 1
+  · exact sel_twice_comm ref.pts (win ab.1 ab.2) (win s e) ref.pts
+  · exact sel_twice_comm ref.pts (win ab.1 ab.2) (win s e) ref.dt
+  · exact sel_twice_comm ref.pts (win ab.1 ab.2) (win s e) ref.Dt
+  · exact sel_twice_comm ref.pts (win ab.1 ab.2) (win s e) df
+
+theorem intervalPrices_eq_pick (ref : Grid) (ab : Int × Int) (prices : Prices) (hidx : ref.idx = List.range ref.T)
+    (hp : ∀ kv ∈ prices, kv.2.length = ref.T) :
+    intervalPrices ref ab prices = pickPrices (intervalSteps ref ab) prices := by
+  unfold intervalPrices pickPrices
+  apply List.map_congr_left
+  intro kv hkv
+  congr 1
+  rw [intervalSteps_eq ref ab hidx, Grid.mask_eq]
+  exact (filter_range_getD (win ab.1 ab.2) 0 0 ref.pts kv.2 (hp kv hkv)).symm
+
+theorem interval_T (ref : Grid) (ab : Int × Int) (hidx : ref.idx = List.range ref.T) :
+    (ref.interval ab.1 ab.2).T = (intervalSteps ref ab).length := by
+  show (sel (ref.mask ab.1 ab.2) ref.pts).length = (sel (ref.mask ab.1 ab.2) ref.idx).length
+  exact sel_length_eq _ _ _ (by rw [hidx]; simp [Grid.T])
+
+theorem restrict_ok (ref : Grid) (df : List Rat) (s e : Int) (hidx : ref.idx = List.range ref.T)
+    (hdt : ref.dt.length = ref.T) (hdf : df.length = ref.T) : (({ ref with df := df } : Grid).restrict s e).Ok := by
+  have h1 : ref.idx.length = ref.pts.length := by rw [hidx]; simp [Grid.T]
+  exact ⟨sel_length_eq _ _ _ h1, sel_length_eq _ _ _ hdt, sel_length_eq _ _ _ hdf⟩
+
+/-! ## Part 4: the split set-up of a builder portfolio -/
+
+theorem all_mul_nonpos (k : Rat) (ds : List Rat) (hpos : ∀ d ∈ ds, 0 < d) (hne : ds ≠ []) :
+    (ds.map (k * ·)).all (fun v => decide (v ≤ 0)) = decide (k ≤ 0) := by
+  by_cases hk : k ≤ 0
+  · rw [decide_eq_true hk, List.all_eq_true]
+    intro v hv
+    obtain ⟨d, hd, rfl⟩ := List.mem_map.mp hv
+    have h1 : k * d ≤ 0 * d := Rat.mul_le_mul_of_nonneg_right hk (Rat.le_of_lt (hpos d hd))
+    rw [Rat.zero_mul] at h1
+    simpa using h1
+  · rw [decide_eq_false hk]
+    obtain ⟨d, rest, rfl⟩ := List.exists_cons_of_ne_nil hne
+    have hd := hpos d (by simp)
+    have hk' : 0 < k := Rat.not_le.mp hk
+    have := Rat.mul_pos hk' hd
+    have hn : ¬ k * d ≤ 0 := Rat.not_le.mpr this
+    simp [hn]
+
+theorem trNeg_pick (p : TransportP) (g : Grid) (I : List Nat) (hg : g.Ok)
+    (hpos : (g.dt.all fun d => decide (0 < d)) = true) : (g.pick I).T = 0 ∨ trNeg p (g.pick I) = trNeg p g := by
+  by_cases hT : (g.pick I).T = 0
+  · exact Or.inl hT
+  · right
+    have hpos' : ∀ d ∈ g.dt, 0 < d := by
+      intro d hd
+      simpa using List.all_eq_true.mp hpos d hd
+    have hJne : (g.pick I).dt ≠ [] := by
+      intro h
+      apply hT
+      rw [← (pick_ok g I hg).2.1, h]; rfl
+    have hne : g.dt ≠ [] := by
+      intro h
+      apply hJne
+      show sel _ g.dt = []
+      rw [h, sel_nil_right]
+    unfold trNeg
+    have hposJ : ∀ d ∈ (g.pick I).dt, 0 < d := fun d hd => hpos' d (mem_of_mem_sel _ _ d hd)
+    rw [all_mul_nonpos _ _ hpos' hne, all_mul_nonpos _ (g.pick I).dt hposJ hJne]
+
+/-- **every builder commutes with the restriction to an interval of the split set-up** -/
+theorem buildSpec_pick (a : AssetSpec) (ref : Grid) (ab : Int × Int) (prices : Prices) (u : Nat) (A : AssetProblem)
+    (hidx : ref.idx = List.range ref.T) (hdt : ref.dt.length = ref.T) (hdf : a.df.length = ref.T)
+    (hprices : ∀ kv ∈ prices, kv.2.length = ref.T)
+    (hst : specStable a (({ ref with df := a.df } : Grid).restrict a.start a.stop) (intervalSteps ref ab) prices = true)
+    (hA : buildSpec a ref prices u = .ok A) :
+    buildSpec (a.onInterval ref ab) (ref.interval ab.1 ab.2) (intervalPrices ref ab prices) u =
+      .ok (A.restrictTo (intervalSteps ref ab)) := by
+  have hg := restrict_ok ref a.df a.start a.stop hidx hdt hdf
+  have hlt : ∀ t ∈ (({ ref with df := a.df } : Grid).restrict a.start a.stop).idx, t < ref.T :=
+    restrict_idx_lt ({ ref with df := a.df } : Grid) a.start a.stop hidx
+  unfold buildSpec at hA ⊢
+  have hgrid : (({ (ref.interval ab.1 ab.2) with df := (a.onInterval ref ab).df } : Grid).restrict
+      (a.onInterval ref ab).start (a.onInterval ref ab).stop) =
+      (({ ref with df := a.df } : Grid).restrict a.start a.stop).pick (intervalSteps ref ab) :=
+    interval_restrict_eq_pick ref a.df ab a.start a.stop hidx
+  simp only [hgrid, intervalPrices_eq_pick ref ab prices hidx hprices, interval_T ref ab hidx]
+  show (match a.spec with
+    | .simple p => _ | .contract p => _ | .multi p f => _ | .transport p => _ | .extTransport p => _) = _
+  unfold specStable at hst
+  cases hs : a.spec with
+  | simple p =>
+    simp only [hs, Bool.and_eq_true, Bool.or_eq_true, beq_iff_eq, if_false, Bool.false_eq_true] at hst hA ⊢
+    exact simple_pick p _ prices ref.T A _ hg hst.1.1 hst.1.2 hA
+  | contract p =>
+    simp only [hs, Bool.and_eq_true, Bool.or_eq_true, beq_iff_eq, if_true, List.all_eq_true] at hst hA ⊢
+    exact contract_pick p _ prices ref.T u A _ ref.T hg hlt hst.1.1 hst.1.2 hst.2 hA
+  | multi p f =>
+    simp only [hs, Bool.and_eq_true, Bool.or_eq_true, beq_iff_eq, if_true, List.all_eq_true] at hst hA ⊢
+    exact multi_pick p f _ prices ref.T u A _ ref.T hg hlt hst.1.1 hst.1.2 hst.2 hA
+  | transport p =>
+    simp only [hs] at hst hA ⊢
+    exact transport_pick p _ prices ref.T A _ hg (trNeg_pick p _ _ hg hst) hA
+  | extTransport p =>
+    simp only [hs, Bool.and_eq_true, List.all_eq_true] at hst hA ⊢
+    exact extTransport_pick p _ prices ref.T u A _ ref.T hg hlt (trNeg_pick p _ _ hg (List.all_eq_true.mpr hst.1))
+      hst.2 hA
+
+theorem buildSpec_banded (a : AssetSpec) (ref : Grid) (prices : Prices) (u : Nat) (A : AssetProblem)
+    (hidx : ref.idx = List.range ref.T) (hdt : ref.dt.length = ref.T) (hdf : a.df.length = ref.T)
+    (hA : buildSpec a ref prices u = .ok A) : Banded A ref.T := by
+  have hg := restrict_ok ref a.df a.start a.stop hidx hdt hdf
+  have hlt : ∀ t ∈ (({ ref with df := a.df } : Grid).restrict a.start a.stop).idx, t < ref.T :=
+    restrict_idx_lt ({ ref with df := a.df } : Grid) a.start a.stop hidx
+  unfold buildSpec at hA
+  cases hs : a.spec with
+  | simple p => simp only [hs] at hA; exact simple_banded p _ prices ref.T A ref.T hg hA hlt
+  | contract p => simp only [hs] at hA; exact contract_banded p _ prices ref.T u A ref.T hg hA hlt
+  | multi p f => simp only [hs] at hA; exact multi_banded' p f _ prices ref.T u A ref.T hg hA hlt
+  | transport p => simp only [hs] at hA; exact tr_banded p _ prices ref.T A ref.T hg hA hlt
+  | extTransport p => simp only [hs] at hA; exact extTransport_banded p _ prices ref.T u A ref.T hg hA hlt
+
+/-! ### `mapM` in `Except` -/
+
+theorem mapM_ok_cons {ε α β} (f : α → Except ε β) (x : α) (xs : List α) (ys : List β) :
+    (x :: xs).mapM f = .ok ys ↔ ∃ y ys', f x = .ok y ∧ xs.mapM f = .ok ys' ∧ ys = y :: ys' := by
+  rw [List.mapM_cons]
+  cases hx : f x with
+  | error e => simp [bind, Except.bind]
+  | ok y =>
+    cases hxs : xs.mapM f with
+    | error e => simp [bind, Except.bind]
+    | ok ys' =>
+      simp only [bind, Except.bind, pure, Except.pure, Except.ok.injEq]
+      constructor
+      · intro h; exact ⟨y, ys', rfl, rfl, h.symm⟩
+      · rintro ⟨y', ys'', h1, h2, h3⟩; rw [h3, ← h1, ← h2]
+
+/-- the element-wise transfer of a successful `mapM` -/
+theorem mapM_transfer {ε α α' β β'} (f : α → Except ε β) (f' : α' → Except ε β') (k : α → α') (h : β → β')
+    (xs : List α) (ys : List β) (hxs : xs.mapM f = .ok ys)
+    (hstep : ∀ x ∈ xs, ∀ y, f x = .ok y → f' (k x) = .ok (h y)) :
+    (xs.map k).mapM f' = .ok (ys.map h) := by
+  induction xs generalizing ys with
+  | nil =>
+    have : ys = [] := by simpa [List.mapM_nil, pure, Except.pure] using hxs.symm
+    subst this; rfl
+  | cons x xs ih =>
+    obtain ⟨y, ys', h1, h2, rfl⟩ := (mapM_ok_cons f x xs ys).mp hxs
+    rw [List.map_cons, mapM_ok_cons]
+    exact ⟨h y, ys'.map h, hstep x (by simp) y h1, ih ys' h2 (fun x' hx' => hstep x' (by simp [hx'])), rfl⟩
+
+theorem mapM_mem {ε α β} (f : α → Except ε β) (xs : List α) (ys : List β) (hxs : xs.mapM f = .ok ys) :
+    ∀ y ∈ ys, ∃ x ∈ xs, f x = .ok y := by
+  induction xs generalizing ys with
+  | nil =>
+    have : ys = [] := by simpa [List.mapM_nil, pure, Except.pure] using hxs.symm
+    subst this; intro y hy; simp at hy
+  | cons x xs ih =>
+    obtain ⟨y0, ys', h1, h2, rfl⟩ := (mapM_ok_cons f x xs ys).mp hxs
+    intro y hy
+    rcases List.mem_cons.mp hy with rfl | hy'
+    · exact ⟨x, by simp, h1⟩
+    · obtain ⟨x', hx', hf⟩ := ih ys' h2 y hy'
+      exact ⟨x', by simp [hx'], hf⟩
+
+theorem mapM_ok_of_forall {ε α β} (f : α → Except ε β) (g : α → β) (xs : List α) (h : ∀ x ∈ xs, f x = .ok (g x)) :
+    xs.mapM f = .ok (xs.map g) := by
+  induction xs with
+  | nil => rfl
+  | cons x xs ih =>
+    rw [mapM_ok_cons]
+    exact ⟨g x, xs.map g, h x (by simp), ih (fun x' hx' => h x' (by simp [hx'])), rfl⟩
+
+/-! ### skipping the interval problems without variables -/
+
+theorem assembleFrom_skip_empty (off : Nat) (a : AssetProblem) (rest : List AssetProblem) (hc : a.c = [])
+    (hl : a.l = []) (hu : a.u = []) (hr : a.rows = []) (hm : a.mapping = []) :
+    assembleFrom off (a :: rest) = assembleFrom off rest := by
+  have hn : a.n = 0 := by simp [AssetProblem.n, hc]
+  show Problem.mk _ _ _ _ _ _ = _
+  rw [hc, hl, hu, hr, hm, hn]
+  simp only [List.nil_append, List.map_nil, Nat.add_zero]
+  cases rest <;> rfl
+
+theorem wfIdx_empty (P : Problem) (hw : P.wfIdx = true) (hn : P.n = 0) (hrows : ∀ r ∈ P.rows, r.coeffs ≠ []) :
+    P.c = [] ∧ P.l = [] ∧ P.u = [] ∧ P.rows = [] ∧ P.mapping = [] := by
+  obtain ⟨h1, h2, h3, h4⟩ := wfIdx_spec P hw
+  refine ⟨List.eq_nil_of_length_eq_zero hn, List.eq_nil_of_length_eq_zero (by rw [h1, hn]),
+    List.eq_nil_of_length_eq_zero (by rw [h2, hn]), ?_, ?_⟩
+  · apply List.eq_nil_iff_forall_not_mem.mpr
+    intro r hr
+    obtain ⟨q, rest, hq⟩ := List.exists_cons_of_ne_nil (hrows r hr)
+    have := h3 r hr q (by rw [hq]; simp)
+    omega
+  · apply List.eq_nil_iff_forall_not_mem.mpr
+    intro m hm
+    have := h4 m hm
+    omega
+
+theorem blockSum_filter (ps : List Problem) (hw : ∀ P ∈ ps, P.wfIdx = true)
+    (hrows : ∀ P ∈ ps, ∀ r ∈ P.rows, r.coeffs ≠ []) (off : Nat) :
+    assembleFrom off ((ps.filter fun P => P.n != 0).map Problem.toAsset) = assembleFrom off (ps.map Problem.toAsset) := by
+  induction ps generalizing off with
+  | nil => rfl
+  | cons P rest ih =>
+    have ih' := ih (fun Q hQ => hw Q (by simp [hQ])) (fun Q hQ => hrows Q (by simp [hQ]))
+    by_cases hn : P.n = 0
+    · obtain ⟨h1, h2, h3, h4, h5⟩ := wfIdx_empty P (hw P (by simp)) hn (hrows P (by simp))
+      rw [List.filter_cons, List.map_cons]
+      simp only [hn, bne_self_eq_false, Bool.false_eq_true, if_false]
+      rw [assembleFrom_skip_empty off P.toAsset _ h1 h2 h3 h4 h5]
+      exact ih' off
+    · rw [List.filter_cons, List.map_cons]
+      have : (P.n != 0) = true := by simpa using hn
+      simp only [this, if_true, List.map_cons]
+      show Problem.mk _ _ _ _ _ _ = Problem.mk _ _ _ _ _ _
+      rw [ih' (off + P.toAsset.n)]
+
+/-- dropping the interval problems without variables does not change the witness -/
+theorem splitWitness_filter (U : Problem) (ps : List Problem) (perm : List Nat)
+    (hrows : ∀ P ∈ ps, ∀ r ∈ P.rows, r.coeffs ≠ []) (h : splitWitness U ps perm = true) :
+    splitWitness U (ps.filter fun P => P.n != 0) perm = true := by
+  unfold splitWitness at h ⊢
+  simp only [Bool.and_eq_true] at h ⊢
+  obtain ⟨⟨⟨h1, h2⟩, h3⟩, h4⟩ := h
+  refine ⟨⟨⟨h1, ?_⟩, h3⟩, ?_⟩
+  · rw [List.all_eq_true] at h2 ⊢
+    exact fun P hP => h2 P (List.mem_filter.mp hP).1
+  · have : blockSum (ps.filter fun P => P.n != 0) = blockSum ps :=
+      blockSum_filter ps (List.all_eq_true.mp h2) hrows 0
+    rw [this]; exact h4
+
+/-! ### the loop of `setup_split_optim_problem` -/
+
+theorem assemble_rows_ne (as : List AssetProblem) (T : Nat) (hB : ∀ a ∈ as, Banded a T) (gridI : List Nat)
+    (skip : List String) : ∀ r ∈ (assemble as gridI skip).rows, r.coeffs ≠ [] := by
+  intro r hr
+  rw [assemble_rows] at hr
+  rcases List.mem_append.mp hr with h | h
+  · obtain ⟨a, ha, r', hr', o, rfl⟩ := mem_assembleFrom_rows as 0 r h
+    have := ((hB a ha).rows_ok r' hr').1
+    simpa [Row.rename] using this
+  · obtain ⟨⟨t, n⟩, hp, rfl⟩ := List.mem_map.mp h
+    obtain ⟨_, _, _, hany⟩ := (mem_nodalPairs_iff _ _ _ _ t n).mp hp
+    obtain ⟨m, hm, hd⟩ := List.any_eq_true.mp hany
+    intro hnil
+    have : (m.var, m.factor) ∈ (nodalRow (assembleFrom 0 as).mapping n t).coeffs := by
+      unfold nodalRow
+      exact List.mem_map_of_mem (List.mem_filter.mpr ⟨hm, hd⟩)
+    rw [hnil] at this
+    simp at this
+
+theorem intervalProblem_rows_ne (as : List AssetProblem) (T : Nat) (hB : ∀ a ∈ as, Banded a T) (skip : List String)
+    (I : List Nat) : ∀ r ∈ (intervalProblem as skip I).rows, r.coeffs ≠ [] := by
+  intro R hR
+  obtain ⟨r, hr, _, rfl⟩ := interval_rows_sub as T hB skip I R hR
+  have := assemble_rows_ne as T hB (List.range T) skip r hr
+  simpa [Row.rename] using this
+
+theorem buildAll_banded (specs : List AssetSpec) (ref : Grid) (prices : Prices) (u : Nat) (as : List AssetProblem)
+    (hidx : ref.idx = List.range ref.T) (hdt : ref.dt.length = ref.T) (hdf : ∀ a ∈ specs, a.df.length = ref.T)
+    (has : buildAll specs ref prices u = .ok as) : ∀ A ∈ as, Banded A ref.T := by
+  intro A hA
+  obtain ⟨a, ha, hb⟩ := mapM_mem _ specs as has A hA
+  exact buildSpec_banded a ref prices u A hidx hdt (hdf a ha) hb
+
+/-- one pass of the loop returns the interval problem of the unsplit asset problems (or skips it when it has no
+    variable) -/
+theorem setupInterval_eq (specs : List AssetSpec) (ref : Grid) (prices : Prices) (u : Nat) (skip : List String)
+    (ab : Int × Int) (as : List AssetProblem)
+    (hidx : ref.idx = List.range ref.T) (hdt : ref.dt.length = ref.T) (hdf : ∀ a ∈ specs, a.df.length = ref.T)
+    (hprices : ∀ kv ∈ prices, kv.2.length = ref.T)
+    (hst : ∀ a ∈ specs, specStable a (({ ref with df := a.df } : Grid).restrict a.start a.stop)
+      (intervalSteps ref ab) prices = true)
+    (has : buildAll specs ref prices u = .ok as) :
+    setupInterval specs ref prices u skip ab =
+      .ok (if (intervalProblem as skip (intervalSteps ref ab)).n = 0 then none
+           else some (intervalProblem as skip (intervalSteps ref ab))) := by
+  have hB := buildAll_banded specs ref prices u as hidx hdt hdf has
+  unfold setupInterval
+  by_cases hT : (ref.interval ab.1 ab.2).T = 0
+  · simp only [hT, if_true]
+    have hI : intervalSteps ref ab = [] :=
+      List.eq_nil_of_length_eq_zero (by rw [← interval_T ref ab hidx]; exact hT)
+    have hn : (intervalProblem as skip (intervalSteps ref ab)).n = 0 := by
+      rw [interval_n as ref.T hB skip, hI]
+      apply List.length_eq_zero_iff.mpr
+      apply List.eq_nil_iff_forall_not_mem.mpr
+      intro v hv
+      obtain ⟨_, m, _, _, hs⟩ := (mem_pkeep _ _ _).mp hv
+      simp at hs
+    rw [if_pos hn]; rfl
+  · simp only [hT, if_false]
+    have hall : buildAll (specs.map fun a => a.onInterval ref ab) (ref.interval ab.1 ab.2) (intervalPrices ref ab prices) u =
+        .ok (as.map fun A => A.restrictTo (intervalSteps ref ab)) := by
+      unfold buildAll at has ⊢
+      exact mapM_transfer _ _ _ _ specs as has (fun a ha A hA =>
+        buildSpec_pick a ref ab prices u A hidx hdt (hdf a ha) hprices (hst a ha) hA)
+    have hJidx : (ref.interval ab.1 ab.2).idx = List.range (intervalSteps ref ab).length := by
+      show List.range _ = _
+      rw [← interval_T ref ab hidx]; rfl
+    unfold setupPortfolio
+    simp only [bind, Except.bind, hall, pure, Except.pure, hJidx]
+    show (if (intervalProblem as skip (intervalSteps ref ab)).n = 0 then _ else Except.ok (some (intervalProblem as skip _))) = _
+    split <;> rfl
+
+theorem filterMap_skip (f : List Nat → Problem) (Is : List (List Nat)) :
+    (Is.map fun I => if (f I).n = 0 then none else some (f I)).filterMap id = (Is.map f).filter fun P => P.n != 0 := by
+  induction Is with
+  | nil => rfl
+  | cons I rest ih =>
+    by_cases h : (f I).n = 0
+    · simp [h, ih]
+    · simp [h, ih]
+
+/-- **the split set-up of a builder portfolio**: the interval problems of the unsplit asset problems, those without
+    variables dropped -/
+theorem setupSplit_eq (specs : List AssetSpec) (ref : Grid) (cuts : List Int) (prices : Prices) (u : Nat)
+    (skip : List String) (as : List AssetProblem)
+    (hidx : ref.idx = List.range ref.T) (hdt : ref.dt.length = ref.T) (hdf : ∀ a ∈ specs, a.df.length = ref.T)
+    (hprices : ∀ kv ∈ prices, kv.2.length = ref.T)
+    (hst : ∀ a ∈ specs, ∀ I ∈ (splitPairs cuts).map (intervalSteps ref),
+      specStable a (({ ref with df := a.df } : Grid).restrict a.start a.stop) I prices = true)
+    (has : buildAll specs ref prices u = .ok as)
+    (hne : (((splitPairs cuts).map (intervalSteps ref)).map (intervalProblem as skip)).filter (fun P => P.n != 0) ≠ []) :
+    setupSplit specs ref cuts prices u skip =
+      .ok ((((splitPairs cuts).map (intervalSteps ref)).map (intervalProblem as skip)).filter fun P => P.n != 0) := by
+  unfold setupSplit
+  have hp : (prices.any fun kv => kv.2.length != ref.T) = false := by
+    rw [Bool.eq_false_iff]
+    intro h
+    obtain ⟨kv, hkv, hb⟩ := List.any_eq_true.mp h
+    simp [hprices kv hkv] at hb
+  have hm := mapM_ok_of_forall (setupInterval specs ref prices u skip)
+    (fun ab => if (intervalProblem as skip (intervalSteps ref ab)).n = 0 then none
+      else some (intervalProblem as skip (intervalSteps ref ab))) (splitPairs cuts)
+    (fun ab hab => setupInterval_eq specs ref prices u skip ab as hidx hdt hdf hprices
+      (fun a ha => hst a ha _ (List.mem_map_of_mem hab)) has)
+  have hfm : ((splitPairs cuts).map fun ab => if (intervalProblem as skip (intervalSteps ref ab)).n = 0 then none
+      else some (intervalProblem as skip (intervalSteps ref ab))).filterMap id =
+      (((splitPairs cuts).map (intervalSteps ref)).map (intervalProblem as skip)).filter fun P => P.n != 0 := by
+    rw [← filterMap_skip (intervalProblem as skip), List.map_map]
+    rfl
+  simp only [bind, Except.bind, hp, Bool.false_eq_true, if_false, hm, hfm, pure, Except.pure]
+  have : ((((splitPairs cuts).map (intervalSteps ref)).map (intervalProblem as skip)).filter fun P => P.n != 0).isEmpty = false := by
+    cases hh : (((splitPairs cuts).map (intervalSteps ref)).map (intervalProblem as skip)).filter fun P => P.n != 0 with
+    | nil => exact absurd hh hne
+    | cons _ _ => rfl
+  rw [this]
+  rfl
+
+/-! ### no row of a builder reaches across a cut -/
+
+theorem takeRows_inside (kind : RowKind) (u : Nat) (g : Grid) (a : AssetProblem) (Tref : Nat) (node : Option String)
+    (takes : List Take) (Is : List (List Nat)) (hB : Banded a Tref) (hcov : ∀ t, t < Tref → ∃ I ∈ Is, t ∈ I)
+    (htk : ∀ I ∈ Is, ∀ tk ∈ takes, takeInside g I tk = true) :
+    ∀ r ∈ defineRestr kind u g a.mapping node takes, ∃ I ∈ Is, ∀ q ∈ r.coeffs, q.1 ∈ a.keep I := by
+  intro r hr
+  obtain ⟨tk, htk', hrow⟩ := defineRestr_row hr
+  obtain ⟨hne, _, hc, _⟩ := takeRow_some hrow
+  obtain ⟨m0, rest, hsel⟩ := List.exists_cons_of_ne_nil hne
+  have hm0 : m0 ∈ takeSel g a.mapping node tk.1 tk.2.1 := by rw [hsel]; simp
+  obtain ⟨hm0M, _, i0, hi0, hs0⟩ := mem_takeSel hm0
+  obtain ⟨I, hI, ht0⟩ := hcov m0.step (hB.map_step m0 hm0M)
+  refine ⟨I, hI, ?_⟩
+  have hin := htk I hI tk htk'
+  unfold takeInside at hin
+  simp only [Bool.or_eq_true, List.all_eq_true, List.mem_map] at hin
+  have hall : ∀ i ∈ coveredPos g tk.1 tk.2.1, g.idx.getD i 0 ∈ I := by
+    rcases hin with h | h
+    · intro i hi
+      exact List.contains_iff_mem.mp (h _ ⟨i, hi, rfl⟩)
+    · have := h _ ⟨i0, hi0, rfl⟩
+      rw [← hs0] at this
+      simp [ht0] at this
+  intro q hq
+  rw [hc, List.mem_map] at hq
+  obtain ⟨m, hm, rfl⟩ := hq
+  obtain ⟨hmM, _, i, hi, hs⟩ := mem_takeSel hm
+  exact (banded_var_mem_keep hB I m hmM).mpr (hs ▸ hall i hi)
+
+theorem rowsInside_nil (a : AssetProblem) (Is : List (List Nat)) (h : a.rows = []) : RowsInside a Is := by
+  intro r hr; rw [h] at hr; simp at hr
+
+theorem simple_rows_nil {p : ContractP} {g : Grid} {prices : Prices} {fullT : Nat} {a : AssetProblem}
+    (h : buildSimpleContract p g prices fullT = .ok a) : a.rows = [] := by
+  obtain ⟨d, _, _, _, _, _, _, _, _, _, rfl⟩ := buildSimpleContract_ok h
+  split <;> rfl
+
+theorem transport_rows_nil {p : TransportP} {g : Grid} {prices : Prices} {fullT : Nat} {a : AssetProblem}
+    (h : buildTransport p g prices fullT = .ok a) : a.rows = [] := by
+  obtain ⟨_, _, _, _, _, _, _, rfl⟩ := buildTransport_ok h
+  rfl
+
+theorem rowsInside_multi (a0 : AssetProblem) (nfs : List (String × Rat)) (hne : nfs ≠ []) (rows : List Row)
+    (Is : List (List Nat)) (h : ∀ r ∈ rows, ∃ I ∈ Is, ∀ q ∈ r.coeffs, q.1 ∈ a0.keep I) :
+    RowsInside ({ a0 with rows := rows, mapping := multiMap nfs a0.mapping } : AssetProblem) Is := by
+  intro r hr
+  obtain ⟨I, hI, hq⟩ := h r hr
+  refine ⟨I, hI, fun q hqq => ?_⟩
+  have hv := hq q hqq
+  unfold AssetProblem.keep at hv ⊢
+  rw [List.mem_filter] at hv ⊢
+  refine ⟨hv.1, ?_⟩
+  rw [varAtSteps_multi _ hne]
+  exact hv.2
+
+theorem buildSpec_rowsInside (a : AssetSpec) (ref : Grid) (prices : Prices) (u : Nat) (A : AssetProblem)
+    (Is : List (List Nat))
+    (hidx : ref.idx = List.range ref.T) (hdt : ref.dt.length = ref.T) (hdf : a.df.length = ref.T)
+    (hcov : ∀ t, t < ref.T → ∃ I ∈ Is, t ∈ I)
+    (hst : ∀ I ∈ Is, specStable a (({ ref with df := a.df } : Grid).restrict a.start a.stop) I prices = true)
+    (hA : buildSpec a ref prices u = .ok A) : RowsInside A Is := by
+  have hg := restrict_ok ref a.df a.start a.stop hidx hdt hdf
+  have hlt : ∀ t ∈ (({ ref with df := a.df } : Grid).restrict a.start a.stop).idx, t < ref.T :=
+    restrict_idx_lt ({ ref with df := a.df } : Grid) a.start a.stop hidx
+  unfold buildSpec at hA
+  unfold specStable at hst
+  cases hs : a.spec with
+  | simple p =>
+    simp only [hs] at hA
+    exact rowsInside_nil A Is (simple_rows_nil hA)
+  | contract p =>
+    simp only [hs, Bool.and_eq_true, if_true, List.all_eq_true] at hA hst
+    obtain ⟨a0, ha0, rfl⟩ := buildContract_ok hA
+    have hB := simple_banded p _ prices ref.T a0 ref.T hg ha0 hlt
+    intro r hr
+    have hr' : r ∈ a0.rows ++ defineRestr .U u _ a0.mapping none p.maxTake ++ defineRestr .L u _ a0.mapping none p.minTake := hr
+    rw [simple_rows_nil ha0, List.nil_append] at hr'
+    rcases List.mem_append.mp hr' with h | h
+    · exact takeRows_inside .U u _ a0 ref.T none p.maxTake Is hB hcov
+        (fun I hI tk htk => (hst I hI).2 tk (List.mem_append_right _ htk)) r h
+    · exact takeRows_inside .L u _ a0 ref.T none p.minTake Is hB hcov
+        (fun I hI tk htk => (hst I hI).2 tk (List.mem_append_left _ htk)) r h
+  | multi p f =>
+    simp only [hs, Bool.and_eq_true, if_true, List.all_eq_true] at hA hst
+    obtain ⟨hf, a1, ha1, rfl⟩ := buildMulti_ok hA
+    obtain ⟨a0, ha0, rfl⟩ := buildContract_ok ha1
+    have hB := simple_banded p _ prices ref.T a0 ref.T hg ha0 hlt
+    have hne := multi_nfs_ne p f hf (nodes_ne_of_simple ha0)
+    apply rowsInside_multi a0 (p.nodes.zip f) hne _ Is
+    intro r hr''
+    have hr3 : r ∈ defineRestr .U u (({ ref with df := a.df } : Grid).restrict a.start a.stop) a0.mapping none p.maxTake ++
+        defineRestr .L u (({ ref with df := a.df } : Grid).restrict a.start a.stop) a0.mapping none p.minTake := by
+      rw [simple_rows_nil ha0, List.nil_append] at hr''
+      exact hr''
+    rcases List.mem_append.mp hr3 with h | h
+    · exact takeRows_inside .U u _ a0 ref.T none p.maxTake Is hB hcov
+        (fun I hI tk htk => (hst I hI).2 tk (List.mem_append_right _ htk)) r h
+    · exact takeRows_inside .L u _ a0 ref.T none p.minTake Is hB hcov
+        (fun I hI tk htk => (hst I hI).2 tk (List.mem_append_left _ htk)) r h
+  | transport p =>
+    simp only [hs] at hA
+    exact rowsInside_nil A Is (transport_rows_nil hA)
+  | extTransport p =>
+    simp only [hs, Bool.and_eq_true, List.all_eq_true] at hA hst
+    obtain ⟨a0, ha0, rfl⟩ := buildExtTransport_ok hA
+    have hB := tr_banded p _ prices ref.T a0 ref.T hg ha0 hlt
+    intro r hr
+    have hr' : r ∈ a0.rows ++ defineRestr .L u _ a0.mapping p.nodes.head? (p.maxTake.map negTake)
+        ++ defineRestr .U u _ a0.mapping p.nodes.head? (p.minTake.map negTake) := hr
+    rw [transport_rows_nil ha0, List.nil_append] at hr'
+    have hneg : ∀ (ts : List Take) (I : List Nat), (∀ tk ∈ ts, takeInside (({ ref with df := a.df } : Grid).restrict a.start a.stop) I tk = true) →
+        ∀ tk ∈ ts.map negTake, takeInside (({ ref with df := a.df } : Grid).restrict a.start a.stop) I tk = true := by
+      intro ts I h tk htk
+      obtain ⟨tk0, h0, rfl⟩ := List.mem_map.mp htk
+      exact h tk0 h0
+    rcases List.mem_append.mp hr' with h | h
+    · exact takeRows_inside .L u _ a0 ref.T _ _ Is hB hcov
+        (fun I hI => hneg _ I (fun tk htk => (hst I hI).2 tk (List.mem_append_right _ htk))) r h
+    · exact takeRows_inside .U u _ a0 ref.T _ _ Is hB hcov
+        (fun I hI => hneg _ I (fun tk htk => (hst I hI).2 tk (List.mem_append_left _ htk))) r h
+
 end EAO.SplitBuild
